@@ -1,1 +1,3193 @@
 //! shared code of the sequential cache engines
+//!
+//! * `pol` — C14: eviction-policy contract monitor (used by `policy_seq`)
+//! * `cs`  — C12 / C17: single-threaded differential monitor of a real cache under the frozen
+//!           virtual clock (used by `cache_seq`)
+
+pub mod pol {
+  //! Bookkeeping model of the `CachePolicy` contract as the cache itself uses it
+  //! (`task/janitor.rs`): `on_admit` for every write (also overwrites), victims of
+  //! `AdmitAndEvict` are removed from the map and then reported back with `on_remove`,
+  //! victims of `evict` are removed from the map *without* an `on_remove`, `on_access` carries
+  //! the resident entry's cost.
+
+  use fibre_cache::policy::{AdmissionDecision, CachePolicy};
+  use serde_json::{json, Value};
+  use std::collections::{BTreeMap, HashMap, HashSet};
+  use std::panic::{catch_unwind, AssertUnwindSafe};
+  use vh_core::rng::Rng;
+  use vh_core::Fnv;
+
+  pub const POLICIES: [&str; 8] = ["tinylfu", "sieve", "slru", "arc", "lru", "fifo", "clock", "random"];
+
+  pub fn make(name: &str, cap: u64) -> Box<dyn CachePolicy<u64, ()>> {
+    use fibre_cache::policy::*;
+    match name {
+      "tinylfu" => Box::new(tinylfu::TinyLfuPolicy::new(cap)),
+      "sieve" => Box::new(sieve::SievePolicy::new()),
+      "slru" => Box::new(slru::SlruPolicy::new(cap)),
+      "arc" => Box::new(arc::ArcPolicy::new(cap as usize)),
+      "lru" => Box::new(lru::LruPolicy::new()),
+      "fifo" => Box::new(fifo::Fifo::new()),
+      "clock" => Box::new(clock::ClockPolicy::new()),
+      "random" => Box::new(random::RandomPolicy::new()),
+      other => panic!("unknown policy {}", other),
+    }
+  }
+
+  /// How much an `evict` asks for; resolved against the model's tracked total at run time so
+  /// that a program is closed (replayable prefix by prefix).
+  #[derive(Clone, Copy, Debug, PartialEq)]
+  pub enum EvictN {
+    Zero,
+    One,
+    Abs(u64),
+    /// `num/8` of the tracked total (rounded up)
+    Frac(u64),
+    Total,
+    TotalPlus1,
+    Max,
+  }
+
+  #[derive(Clone, Debug, PartialEq)]
+  pub enum Op {
+    /// `on_admit(k, cost)`; `notify` = report AdmitAndEvict victims back with `on_remove`
+    /// (what the cache does when the victim was still in its map).
+    Admit { k: u64, cost: u64, notify: bool },
+    /// `on_access(k, c)`; c = recorded cost if tracked, else `cost_if_untracked`
+    Access { k: u64, cost_if_untracked: u64 },
+    Remove { k: u64 },
+    Evict { n: EvictN },
+    Clear,
+  }
+
+  impl Op {
+    pub fn to_json(&self) -> Value {
+      match self {
+        Op::Admit { k, cost, notify } => json!({"op":"on_admit","key":k,"cost":cost,"on_remove_for_victims":notify}),
+        Op::Access { k, cost_if_untracked } => json!({"op":"on_access","key":k,"cost_if_untracked":cost_if_untracked}),
+        Op::Remove { k } => json!({"op":"on_remove","key":k}),
+        Op::Evict { n } => json!({"op":"evict","n":format!("{:?}", n)}),
+        Op::Clear => json!({"op":"clear"}),
+      }
+    }
+    fn kind(&self) -> &'static str {
+      match self {
+        Op::Admit { .. } => "admit",
+        Op::Access { .. } => "access",
+        Op::Remove { .. } => "remove",
+        Op::Evict { .. } => "evict",
+        Op::Clear => "clear",
+      }
+    }
+    fn key(&self) -> Option<u64> {
+      match self {
+        Op::Admit { k, .. } | Op::Access { k, .. } | Op::Remove { k } => Some(*k),
+        _ => None,
+      }
+    }
+  }
+
+  #[derive(Clone, Debug)]
+  pub struct Case {
+    pub policy: &'static str,
+    pub cap: u64,
+    pub ops: Vec<Op>,
+  }
+
+  impl Case {
+    pub fn to_json(&self) -> Value {
+      json!({"policy": self.policy, "policy_capacity": self.cap,
+             "ops": self.ops.iter().map(|o| o.to_json()).collect::<Vec<_>>()})
+    }
+    pub fn prefix(&self, n: usize) -> Case {
+      Case { policy: self.policy, cap: self.cap, ops: self.ops[..n.min(self.ops.len())].to_vec() }
+    }
+  }
+
+  #[derive(Clone, Debug)]
+  pub struct Finding {
+    pub rule: String,
+    pub variant: String,
+    /// index of the op at which it was observed; `ops.len()` = final drain
+    pub at: usize,
+    pub keys: Vec<u64>,
+    pub detail: String,
+  }
+
+  #[derive(Default, Clone, Debug)]
+  pub struct Stats {
+    pub calls: BTreeMap<&'static str, u64>,
+    pub admit_new: u64,
+    pub admit_readmit: u64,
+    pub admit_readmit_cost_change: u64,
+    pub admit_and_evict: u64,
+    pub admit_victims: u64,
+    pub rejects: u64,
+    pub access_tracked: u64,
+    pub access_untracked: u64,
+    pub remove_tracked: u64,
+    pub remove_untracked: u64,
+    pub evict_calls_with_victims: u64,
+    pub evict_victims: u64,
+    pub evict_requested_reachable: u64,
+    pub zero_cost_admits: u64,
+    pub huge_cost_admits: u64,
+    pub drain_rounds: u64,
+    pub drain_victims: u64,
+    pub order_checks: u64,
+    pub touched_then_evicted: u64,
+  }
+
+  pub struct Outcome {
+    pub findings: Vec<Finding>,
+    pub stats: Stats,
+    pub trace: Vec<String>,
+    pub shape: u64,
+  }
+
+  #[derive(Clone, Copy, PartialEq, Debug)]
+  enum Why {
+    Never,
+    Removed,
+    Cleared,
+    Nominated,
+  }
+  impl Why {
+    fn name(self) -> &'static str {
+      match self {
+        Why::Never => "never-admitted",
+        Why::Removed => "after-on_remove",
+        Why::Cleared => "after-clear",
+        Why::Nominated => "already-nominated",
+      }
+    }
+  }
+
+  #[derive(Default)]
+  struct Model {
+    tracked: BTreeMap<u64, u64>,
+    /// costs admitted since the key (re)entered tracking
+    hist: HashMap<u64, Vec<u64>>,
+    why: HashMap<u64, Why>,
+    /// keys whose admission was answered `Reject` (no built-in does): nothing is asserted
+    lenient: HashSet<u64>,
+    /// least recently used first
+    lru: Vec<u64>,
+    /// FIFO reference keeping the position of the first admission
+    fifo_keep: Vec<u64>,
+    /// FIFO reference where re-admission counts as a new insertion
+    fifo_move: Vec<u64>,
+    /// keys accessed or re-admitted since admission (evidence only)
+    touched: HashSet<u64>,
+  }
+
+  impl Model {
+    fn total(&self) -> u128 {
+      self.tracked.values().map(|&c| c as u128).sum()
+    }
+    fn forget(&mut self, k: u64, why: Why) -> Option<u64> {
+      let c = self.tracked.remove(&k);
+      if c.is_some() {
+        self.hist.remove(&k);
+        self.lru.retain(|x| *x != k);
+        self.fifo_keep.retain(|x| *x != k);
+        self.fifo_move.retain(|x| *x != k);
+        self.why.insert(k, why);
+      }
+      c
+    }
+    fn why(&self, k: u64) -> Why {
+      *self.why.get(&k).unwrap_or(&Why::Never)
+    }
+  }
+
+  fn guarded<R>(f: impl FnOnce() -> R) -> Result<R, String> {
+    match catch_unwind(AssertUnwindSafe(f)) {
+      Ok(r) => Ok(r),
+      Err(p) => Err(format!("{} at {}", vh_core::panic_message(&*p), vh_core::last_panic_location())),
+    }
+  }
+
+  /// Victims returned by one call. Returns (sum of recorded costs, sum of first-admission costs,
+  /// all victims were tracked).
+  fn take_victims(
+    m: &mut Model,
+    policy: &str,
+    component: &str,
+    victims: &[u64],
+    at: usize,
+    findings: &mut Vec<Finding>,
+    stats: &mut Stats,
+    check_order: bool,
+  ) -> (u128, u128, bool) {
+    // exact victim order for LRU / FIFO (order is asserted, the count is not)
+    if check_order && !victims.is_empty() && victims.iter().all(|v| m.tracked.contains_key(v)) {
+      if policy == "lru" {
+        stats.order_checks += 1;
+        let exp: Vec<u64> = m.lru.iter().copied().take(victims.len()).collect();
+        if exp != victims {
+          findings.push(Finding {
+            rule: "victim-order".into(),
+            variant: "not-least-recently-used".into(),
+            at,
+            keys: victims.to_vec(),
+            detail: format!("evict returned {:?}, least-recently-used order is {:?}", victims, exp),
+          });
+        }
+      } else if policy == "fifo" {
+        stats.order_checks += 1;
+        let e1: Vec<u64> = m.fifo_keep.iter().copied().take(victims.len()).collect();
+        let e2: Vec<u64> = m.fifo_move.iter().copied().take(victims.len()).collect();
+        if e1 != victims && e2 != victims {
+          findings.push(Finding {
+            rule: "victim-order".into(),
+            variant: "not-insertion-order".into(),
+            at,
+            keys: victims.to_vec(),
+            detail: format!(
+              "evict returned {:?}, insertion order is {:?} (or {:?} if re-admission counts as insertion)",
+              victims, e1, e2
+            ),
+          });
+        }
+      }
+    }
+    let mut sum: u128 = 0;
+    let mut first_sum: u128 = 0;
+    let mut all_tracked = true;
+    for &v in victims {
+      if m.lenient.contains(&v) {
+        all_tracked = false;
+        m.forget(v, Why::Nominated);
+        continue;
+      }
+      let first = m.hist.get(&v).and_then(|h| h.first().copied());
+      if m.touched.remove(&v) {
+        stats.touched_then_evicted += 1;
+      }
+      match m.forget(v, Why::Nominated) {
+        Some(c) => {
+          sum += c as u128;
+          first_sum += first.unwrap_or(c) as u128;
+        }
+        None => {
+          all_tracked = false;
+          let why = m.why(v);
+          if why == Why::Nominated {
+            findings.push(Finding {
+              rule: "victim-twice".into(),
+              variant: component.into(),
+              at,
+              keys: vec![v],
+              detail: format!("{} nominated key {} again without re-admission", component, v),
+            });
+          } else {
+            findings.push(Finding {
+              rule: "victim-untracked".into(),
+              variant: format!("{}-{}", component, why.name()),
+              at,
+              keys: vec![v],
+              detail: format!("{} nominated key {} which is not tracked ({})", component, v, why.name()),
+            });
+          }
+        }
+      }
+    }
+    (sum, first_sum, all_tracked)
+  }
+
+  fn do_evict(
+    pol: &dyn CachePolicy<u64, ()>,
+    m: &mut Model,
+    policy: &str,
+    n: u64,
+    at: usize,
+    findings: &mut Vec<Finding>,
+    stats: &mut Stats,
+    trace: &mut Vec<String>,
+  ) -> Result<Vec<u64>, ()> {
+    let total_before = m.total();
+    let r = guarded(|| pol.evict(n));
+    let (victims, reported) = match r {
+      Ok(x) => x,
+      Err(p) => {
+        findings.push(Finding { rule: "panic".into(), variant: "evict".into(), at, keys: vec![], detail: p });
+        return Err(());
+      }
+    };
+    if !victims.is_empty() {
+      stats.evict_calls_with_victims += 1;
+      stats.evict_victims += victims.len() as u64;
+    }
+    // did some victim go through a re-admission with a different cost? (then a wrong total is
+    // attributed to the re-admission path, otherwise to "other")
+    let stale_explains = victims
+      .iter()
+      .any(|v| m.hist.get(v).map_or(false, |h| h.iter().any(|c| Some(c) != h.last())));
+    let (sum, first_sum, all_tracked) = take_victims(m, policy, "evict", &victims, at, findings, stats, true);
+    trace.push(format!("evict({}) -> victims {:?} cost {}", n, victims, reported));
+    let mismatch = all_tracked && reported as u128 != sum;
+    if mismatch {
+      let _ = first_sum;
+      let variant = if stale_explains { "readmit-keeps-stale-cost" } else { "other" };
+      findings.push(Finding {
+        rule: "cost-mismatch".into(),
+        variant: variant.into(),
+        at,
+        keys: victims.clone(),
+        detail: format!(
+          "evict({}) returned victims {:?} with cost {}, their recorded (last admitted) costs sum to {}",
+          n, victims, reported, sum
+        ),
+      });
+    }
+    if n > 0 && total_before >= n as u128 {
+      stats.evict_requested_reachable += 1;
+      // when the policy's own arithmetic is off (cost-mismatch above) a short eviction is a
+      // consequence of that, not a second defect
+      if all_tracked && !mismatch && sum < n as u128 {
+        findings.push(Finding {
+          rule: "freed-short".into(),
+          variant: if victims.is_empty() { "nothing-evicted".into() } else { "partial".into() },
+          at,
+          keys: m.tracked.keys().copied().collect(),
+          detail: format!(
+            "evict({}) freed {} (victims {:?}) although the tracked keys were worth {}; still tracked {:?}",
+            n, sum, victims, total_before, m.tracked
+          ),
+        });
+      }
+    }
+    Ok(victims)
+  }
+
+  /// Runs a case against a fresh policy instance. `final_drain`: finish with
+  /// `evict(u64::MAX)` until it returns nothing and compare with the model's tracked set.
+  pub fn run(case: &Case, final_drain: bool) -> Outcome {
+    let pol = make(case.policy, case.cap);
+    let pol: &dyn CachePolicy<u64, ()> = &*pol;
+    let mut m = Model::default();
+    let mut findings: Vec<Finding> = Vec::new();
+    let mut stats = Stats::default();
+    let mut trace: Vec<String> = Vec::new();
+    let mut fatal = false;
+    for (i, op) in case.ops.iter().enumerate() {
+      *stats.calls.entry(op.kind()).or_default() += 1;
+      match op {
+        Op::Admit { k, cost, notify } => {
+          let (k, cost) = (*k, *cost);
+          if cost == 0 {
+            stats.zero_cost_admits += 1;
+          }
+          if cost >= 1 << 32 {
+            stats.huge_cost_admits += 1;
+          }
+          let r = guarded(|| pol.on_admit(&k, cost));
+          let dec = match r {
+            Ok(d) => d,
+            Err(p) => {
+              findings.push(Finding { rule: "panic".into(), variant: "on_admit".into(), at: i, keys: vec![k], detail: p });
+              fatal = true;
+              break;
+            }
+          };
+          // the key is (re-)admitted first, then the victims leave
+          m.lenient.remove(&k);
+          match m.tracked.insert(k, cost) {
+            Some(old) => {
+              stats.admit_readmit += 1;
+              if old != cost {
+                stats.admit_readmit_cost_change += 1;
+              }
+              m.hist.entry(k).or_default().push(cost);
+              m.touched.insert(k);
+              m.lru.retain(|x| *x != k);
+              m.lru.push(k);
+              m.fifo_move.retain(|x| *x != k);
+              m.fifo_move.push(k);
+            }
+            None => {
+              stats.admit_new += 1;
+              m.hist.insert(k, vec![cost]);
+              m.touched.remove(&k);
+              m.lru.push(k);
+              m.fifo_keep.push(k);
+              m.fifo_move.push(k);
+            }
+          }
+          m.why.remove(&k);
+          match dec {
+            AdmissionDecision::Admit => trace.push(format!("on_admit({},{}) -> Admit", k, cost)),
+            AdmissionDecision::Reject => {
+              stats.rejects += 1;
+              m.forget(k, Why::Never);
+              m.lenient.insert(k);
+              trace.push(format!("on_admit({},{}) -> Reject", k, cost));
+            }
+            AdmissionDecision::AdmitAndEvict(vs) => {
+              stats.admit_and_evict += 1;
+              stats.admit_victims += vs.len() as u64;
+              trace.push(format!("on_admit({},{}) -> AdmitAndEvict({:?})", k, cost, vs));
+              take_victims(&mut m, case.policy, "on_admit", &vs, i, &mut findings, &mut stats, false);
+              if *notify {
+                for v in &vs {
+                  if let Err(p) = guarded(|| pol.on_remove(v)) {
+                    findings.push(Finding { rule: "panic".into(), variant: "on_remove".into(), at: i, keys: vec![*v], detail: p });
+                    fatal = true;
+                  }
+                  // the cache told the policy the victim is gone: a later nomination is untracked
+                  if m.why(*v) == Why::Nominated {
+                    m.why.insert(*v, Why::Removed);
+                  }
+                }
+                if fatal {
+                  break;
+                }
+              }
+            }
+          }
+        }
+        Op::Access { k, cost_if_untracked } => {
+          let k = *k;
+          let c = match m.tracked.get(&k) {
+            Some(&c) => {
+              stats.access_tracked += 1;
+              m.lru.retain(|x| *x != k);
+              m.lru.push(k);
+              m.touched.insert(k);
+              c
+            }
+            None => {
+              stats.access_untracked += 1;
+              *cost_if_untracked
+            }
+          };
+          if let Err(p) = guarded(|| pol.on_access(&k, c)) {
+            findings.push(Finding { rule: "panic".into(), variant: "on_access".into(), at: i, keys: vec![k], detail: p });
+            fatal = true;
+            break;
+          }
+          trace.push(format!("on_access({},{})", k, c));
+        }
+        Op::Remove { k } => {
+          let k = *k;
+          if let Err(p) = guarded(|| pol.on_remove(&k)) {
+            findings.push(Finding { rule: "panic".into(), variant: "on_remove".into(), at: i, keys: vec![k], detail: p });
+            fatal = true;
+            break;
+          }
+          if m.forget(k, Why::Removed).is_some() {
+            stats.remove_tracked += 1;
+          } else {
+            stats.remove_untracked += 1;
+            m.why.insert(k, Why::Removed);
+          }
+          m.lenient.remove(&k);
+          m.touched.remove(&k);
+          trace.push(format!("on_remove({})", k));
+        }
+        Op::Evict { n } => {
+          let total = m.total();
+          let n = match n {
+            EvictN::Zero => 0,
+            EvictN::One => 1,
+            EvictN::Abs(x) => *x,
+            EvictN::Frac(num) => ((total * (*num as u128) + 7) / 8).min(u64::MAX as u128) as u64,
+            EvictN::Total => total.min(u64::MAX as u128) as u64,
+            EvictN::TotalPlus1 => (total + 1).min(u64::MAX as u128) as u64,
+            EvictN::Max => u64::MAX,
+          };
+          if do_evict(pol, &mut m, case.policy, n, i, &mut findings, &mut stats, &mut trace).is_err() {
+            fatal = true;
+            break;
+          }
+        }
+        Op::Clear => {
+          if let Err(p) = guarded(|| pol.clear()) {
+            findings.push(Finding { rule: "panic".into(), variant: "clear".into(), at: i, keys: vec![], detail: p });
+            fatal = true;
+            break;
+          }
+          let ks: Vec<u64> = m.tracked.keys().copied().collect();
+          for k in ks {
+            m.forget(k, Why::Cleared);
+          }
+          for (_, w) in m.why.iter_mut() {
+            *w = Why::Cleared;
+          }
+          m.lenient.clear();
+          m.touched.clear();
+          trace.push("clear()".into());
+        }
+      }
+    }
+
+    if final_drain && !fatal {
+      let at = case.ops.len();
+      let start = m.tracked.len() as u64;
+      let mut rounds = 0u64;
+      loop {
+        let before = findings.len();
+        let r = do_evict(pol, &mut m, case.policy, u64::MAX, at, &mut findings, &mut stats, &mut trace);
+        let vs = match r {
+          Ok(v) => v,
+          Err(()) => {
+            fatal = true;
+            break;
+          }
+        };
+        stats.drain_rounds += 1;
+        stats.drain_victims += vs.len() as u64;
+        rounds += 1;
+        if vs.is_empty() {
+          break;
+        }
+        // a policy that keeps returning untracked keys would never end
+        if rounds > start + 8 || findings.len() > before + 16 {
+          break;
+        }
+      }
+      let left: Vec<u64> = m.tracked.keys().copied().filter(|k| !m.lenient.contains(k)).collect();
+      if !fatal && !left.is_empty() {
+        // Classification probes (after the verdict, nothing below is asserted):
+        //  stalled = the policy still knows the key (an access or a few new admissions make
+        //            evict return it) but evict(u64::MAX) alone never reaches it;
+        //  dropped = the key left the policy's resident set silently.
+        let mut recovered: HashSet<u64> = HashSet::new();
+        let probe = guarded(|| {
+          let mut rec: HashSet<u64> = HashSet::new();
+          for k in &left {
+            pol.on_access(k, m.tracked[k]);
+          }
+          for _ in 0..left.len() + 2 {
+            let (vs, _) = pol.evict(u64::MAX);
+            if vs.is_empty() {
+              break;
+            }
+            rec.extend(vs);
+          }
+          for j in 0..6u64 {
+            let _ = pol.on_admit(&(1_000_000 + j), 1);
+          }
+          let _ = pol.on_admit(&1_000_100, case.cap.saturating_add(1).min(1 << 40));
+          for _ in 0..left.len() + 10 {
+            let (vs, _) = pol.evict(u64::MAX);
+            if vs.is_empty() {
+              break;
+            }
+            rec.extend(vs);
+          }
+          rec
+        });
+        if let Ok(r) = probe {
+          recovered = r;
+        }
+        let stalled: Vec<u64> = left.iter().copied().filter(|k| recovered.contains(k)).collect();
+        let dropped: Vec<u64> = left.iter().copied().filter(|k| !recovered.contains(k)).collect();
+        for (class, ks) in [("dropped", dropped), ("stalled", stalled)] {
+          if ks.is_empty() {
+            continue;
+          }
+          findings.push(Finding {
+            rule: "resident-unevictable".into(),
+            variant: class.into(),
+            at,
+            keys: ks.clone(),
+            detail: format!(
+              "final drain evict(u64::MAX) (repeated until it returned nothing, {} rounds) never returned keys {:?} \
+               which were admitted and neither nominated nor removed since (recorded costs {:?}); class {}",
+              rounds,
+              ks,
+              ks.iter().map(|k| m.tracked[k]).collect::<Vec<_>>(),
+              class
+            ),
+          });
+        }
+      }
+    }
+
+    let mut h = Fnv::default();
+    h.bytes(case.policy.as_bytes());
+    h.u64(case.cap);
+    for t in &trace {
+      h.bytes(t.as_bytes());
+    }
+    Outcome { findings, stats, trace, shape: h.finish() }
+  }
+
+  /// For a final-drain finding: the shortest prefix of the program after which the drain
+  /// already fails, and the kind of the last call of that prefix relative to the lost keys.
+  /// Returns (prefix length, finding of the minimal prefix, "after-…" label).
+  pub fn localize_drain(case: &Case, rule: &str) -> Option<(usize, Finding, String)> {
+    for p in 1..=case.ops.len() {
+      let pc = case.prefix(p);
+      let o = run(&pc, true);
+      if let Some(f) = o.findings.iter().find(|f| f.rule == rule && f.at == p) {
+        let last = &pc.ops[p - 1];
+        let label = match (last.kind(), last.key()) {
+          ("admit", Some(k)) if f.keys.contains(&k) => "after-own-admit".to_string(),
+          ("admit", _) => "after-admit-of-other-key".to_string(),
+          ("access", Some(k)) if f.keys.contains(&k) => "after-own-access".to_string(),
+          ("access", _) => "after-access-of-other-key".to_string(),
+          (kind, _) => format!("after-{}", kind),
+        };
+        return Some((p, f.clone(), label));
+      }
+    }
+    None
+  }
+
+  /// A finding with its canonical `<rule>/<variant>` and the smallest prefix that shows it.
+  pub struct Canon {
+    pub rule: String,
+    pub variant: String,
+    pub witness: Case,
+    pub drain: bool,
+    pub detail: String,
+    pub keys: Vec<u64>,
+  }
+
+  /// Maps the raw findings of a run to canonical ones. `may_localize(rule)` gates the
+  /// O(n^2) prefix search; a finding that would need it but is refused is returned in `skipped`.
+  pub fn canonical(case: &Case, o: &Outcome, may_localize: &mut dyn FnMut(&str) -> bool, skipped: &mut u64) -> Vec<Canon> {
+    let mut out: Vec<Canon> = Vec::new();
+    let mut pstar: Option<Option<(usize, Finding, String)>> = None;
+    let push = |c: Canon, out: &mut Vec<Canon>| {
+      if !out.iter().any(|x| x.rule == c.rule && x.variant == c.variant) {
+        out.push(c);
+      }
+    };
+    for f in &o.findings {
+      let drain = f.at == case.ops.len();
+      if f.rule == "resident-unevictable" || f.rule == "freed-short" {
+        // a short eviction is a symptom: if the keys that were left are unevictable even for
+        // evict(u64::MAX) the root cause is the one the drain names
+        if !may_localize(&f.rule) {
+          *skipped += 1;
+          continue;
+        }
+        let base = if drain { case.clone() } else { case.prefix(f.at + 1) };
+        // the shortest failing prefix of the whole program is also the shortest failing
+        // prefix of every base that contains it: search once per case
+        if pstar.is_none() {
+          pstar = Some(localize_drain(case, "resident-unevictable"));
+        }
+        let loc = match pstar.as_ref().unwrap() {
+          Some((p, mf, label)) if *p <= base.ops.len() => Some((*p, mf.clone(), label.clone())),
+          _ => None,
+        };
+        match loc {
+          Some((p, mf, label)) => push(
+            Canon {
+              rule: "resident-unevictable".into(),
+              // class only (dropped | stalled): the call after which the key became
+              // unreachable varies for one and the same root cause, it goes into the detail
+              variant: mf.variant.clone(),
+              witness: base.prefix(p),
+              drain: true,
+              detail: format!("{}; first unreachable {}", mf.detail, label),
+              keys: mf.keys.clone(),
+            },
+            &mut out,
+          ),
+          None if f.rule == "freed-short" => push(
+            Canon {
+              rule: f.rule.clone(),
+              variant: f.variant.clone(),
+              witness: base,
+              drain: false,
+              detail: f.detail.clone(),
+              keys: f.keys.clone(),
+            },
+            &mut out,
+          ),
+          None => push(
+            Canon {
+              rule: f.rule.clone(),
+              variant: format!("{}-unlocalized", f.variant),
+              witness: base,
+              drain: true,
+              detail: f.detail.clone(),
+              keys: f.keys.clone(),
+            },
+            &mut out,
+          ),
+        }
+      } else {
+        push(
+          Canon {
+            rule: f.rule.clone(),
+            variant: f.variant.clone(),
+            witness: if drain { case.clone() } else { case.prefix(f.at + 1) },
+            drain,
+            detail: f.detail.clone(),
+            keys: f.keys.clone(),
+          },
+          &mut out,
+        );
+      }
+    }
+    out
+  }
+
+  /// Greedy one-call-at-a-time shrinking of a witness that keeps the canonical signature.
+  pub fn shrink(c: &Canon) -> Canon {
+    let same = |cand: &Case| -> Option<Canon> {
+      let o = run(cand, c.drain);
+      let mut sk = 0;
+      canonical(cand, &o, &mut |_| true, &mut sk)
+        .into_iter()
+        .find(|x| x.rule == c.rule && x.variant == c.variant && x.witness.ops.len() == cand.ops.len())
+    };
+    let mut best = Canon {
+      rule: c.rule.clone(),
+      variant: c.variant.clone(),
+      witness: c.witness.clone(),
+      drain: c.drain,
+      detail: c.detail.clone(),
+      keys: c.keys.clone(),
+    };
+    if best.witness.ops.len() > 120 {
+      return best;
+    }
+    for _pass in 0..4 {
+      let mut changed = false;
+      let mut i = best.witness.ops.len();
+      while i > 0 {
+        i -= 1;
+        if best.witness.ops.len() <= 1 {
+          break;
+        }
+        let mut cand = best.witness.clone();
+        cand.ops.remove(i);
+        if let Some(x) = same(&cand) {
+          best = x;
+          changed = true;
+        }
+      }
+      if !changed {
+        break;
+      }
+    }
+    best
+  }
+
+  pub struct GenCfg {
+    pub max_len: u64,
+  }
+
+  pub fn gen_case(rng: &mut Rng, policy: &'static str, cfg: &GenCfg) -> Case {
+    let cap = *rng.pick(&[1u64, 2, 3, 4, 5, 8, 10, 16, 20, 50, 100, 1000, 10_000]);
+    let nkeys = *rng.pick(&[1u64, 2, 3, 4, 5, 6, 8, 12, 16, 32]);
+    let len = match rng.below(4) {
+      0 => rng.range(1, 12),
+      1 => rng.range(8, 40),
+      _ => rng.range(20, cfg.max_len.max(21)),
+    };
+    // cost profile of the case
+    let profile = rng.below(6);
+    let w_admit = rng.range(20, 50) as u32;
+    let w_access = rng.range(5, 45) as u32;
+    let w_remove = rng.range(0, 12) as u32;
+    let w_evict = rng.range(3, 20) as u32;
+    let w_clear = if rng.chance(1, 4) { 1 } else { 0 };
+    let mut ops = Vec::with_capacity(len as usize);
+    for _ in 0..len {
+      let k = rng.below(nkeys);
+      let cost = |rng: &mut Rng| -> u64 {
+        match profile {
+          0 => 1,
+          1 => rng.range(1, cap.min(10).max(1)),
+          2 => {
+            if rng.chance(1, 3) {
+              0
+            } else {
+              rng.range(1, 4)
+            }
+          }
+          3 => match rng.below(10) {
+            0 | 1 => 0,
+            2..=5 => 1,
+            6 | 7 => rng.range(2, 10),
+            8 => rng.range(11, 1000),
+            _ => (1u64 << rng.range(32, 50)) + rng.below(1000),
+          },
+          4 => {
+            if rng.chance(1, 2) {
+              (1u64 << rng.range(32, 50)) + rng.below(7)
+            } else {
+              rng.range(0, 3)
+            }
+          }
+          _ => rng.range(0, cap.saturating_mul(2).min(1 << 40)),
+        }
+      };
+      let op = match rng.weighted(&[w_admit, w_access, w_remove, w_evict, w_clear]) {
+        0 => Op::Admit { k, cost: cost(rng), notify: !rng.chance(1, 8) },
+        1 => Op::Access { k, cost_if_untracked: cost(rng) },
+        2 => Op::Remove { k },
+        3 => Op::Evict {
+          n: match rng.below(12) {
+            0 => EvictN::Zero,
+            1 | 2 => EvictN::One,
+            3 => EvictN::Abs(rng.range(2, 10)),
+            4 => EvictN::Abs(cost(rng)),
+            5 | 6 => EvictN::Frac(rng.range(1, 7)),
+            7 => EvictN::Total,
+            8 => EvictN::TotalPlus1,
+            9 => EvictN::Max,
+            10 => EvictN::Abs(cap),
+            _ => EvictN::Frac(4),
+          },
+        },
+        _ => Op::Clear,
+      };
+      ops.push(op);
+    }
+    Case { policy, cap, ops }
+  }
+}
+
+pub mod cs {
+  //! C12 / C17: a real `Cache` / `AsyncCache` (both handles on one shared core) driven from one
+  //! thread under the frozen virtual clock, with the background janitor reduced to a no-op
+  //! (`maintenance_chance(2^31)`: its periodic pass is gated by that probability), so time and
+  //! maintenance only move when the program says so.
+
+  use fibre_cache::policy::CachePolicy;
+  use fibre_cache::snapshot::CacheSnapshot;
+  use fibre_cache::{verif_clock as vc, AsyncCache, AsyncEntry, Cache, CacheBuilder, Entry, TaskSpawner};
+  use futures_executor::block_on;
+  use futures_util::StreamExt;
+  use serde::{Deserialize, Serialize};
+  use serde_json::{json, Value};
+  use std::collections::hash_map::DefaultHasher;
+  use std::collections::{BTreeMap, BTreeSet, VecDeque};
+  use std::future::Future;
+  use std::pin::Pin;
+  use std::sync::atomic::{AtomicBool, AtomicU64, Ordering};
+  use std::sync::{Arc, Mutex};
+  use std::task::{Context, Poll, Wake, Waker};
+  use std::time::{Duration, Instant};
+  use vh_core::rng::Rng;
+  use vh_core::Fnv;
+
+  // ------------------------------------------------------------------ infrastructure
+
+  /// Deterministic, seedable hasher so that shard placement varies per case but replays.
+  #[derive(Clone, Default)]
+  pub struct SeedHash(pub u64);
+  impl std::hash::BuildHasher for SeedHash {
+    type Hasher = DefaultHasher;
+    fn build_hasher(&self) -> DefaultHasher {
+      let mut h = DefaultHasher::new();
+      std::hash::Hasher::write_u64(&mut h, self.0);
+      h
+    }
+  }
+  pub type SCache = Cache<u64, u64, SeedHash>;
+  pub type ACache = AsyncCache<u64, u64, SeedHash>;
+  type Task = Pin<Box<dyn Future<Output = ()> + Send>>;
+
+  /// Spawner for async loaders: tasks are queued and run by the harness thread, so whether a
+  /// background refresh was triggered and when it completes is decided deterministically.
+  #[derive(Default)]
+  pub struct QueueSpawner {
+    q: Mutex<VecDeque<Task>>,
+    pub spawned: AtomicU64,
+  }
+  impl TaskSpawner for QueueSpawner {
+    fn spawn(&self, f: Task) {
+      self.spawned.fetch_add(1, Ordering::SeqCst);
+      self.q.lock().unwrap().push_back(f);
+    }
+  }
+  impl QueueSpawner {
+    fn pop(&self) -> Option<Task> {
+      self.q.lock().unwrap().pop_front()
+    }
+    pub fn pending(&self) -> usize {
+      self.q.lock().unwrap().len()
+    }
+  }
+
+  struct ThreadWaker {
+    th: std::thread::Thread,
+    flag: AtomicBool,
+  }
+  impl Wake for ThreadWaker {
+    fn wake(self: Arc<Self>) {
+      self.flag.store(true, Ordering::SeqCst);
+      self.th.unpark();
+    }
+  }
+
+  pub const STUCK: &str = "VH_STUCK: async call made no progress (wall-clock watchdog)";
+
+  /// Minimal single-threaded executor: polls `fut`; while it is pending runs the tasks queued
+  /// on the spawner; otherwise parks until woken (e.g. by a loader thread).
+  pub fn drive<F: Future>(fut: F, sp: Option<&QueueSpawner>) -> F::Output {
+    let tw = Arc::new(ThreadWaker { th: std::thread::current(), flag: AtomicBool::new(false) });
+    let waker = Waker::from(tw.clone());
+    let mut cx = Context::from_waker(&waker);
+    let mut fut = std::pin::pin!(fut);
+    let start = Instant::now();
+    loop {
+      if let Poll::Ready(x) = fut.as_mut().poll(&mut cx) {
+        return x;
+      }
+      if let Some(sp) = sp {
+        let mut ran = false;
+        while let Some(t) = sp.pop() {
+          ran = true;
+          drive(t, Some(sp));
+        }
+        if ran {
+          continue;
+        }
+      }
+      while !tw.flag.swap(false, Ordering::SeqCst) {
+        std::thread::park_timeout(Duration::from_millis(5));
+        if start.elapsed() > Duration::from_secs(20) {
+          panic!("{}", STUCK);
+        }
+      }
+    }
+  }
+
+  pub const LOAD_BASE: u64 = 1 << 40;
+
+  #[derive(Clone, Debug)]
+  pub struct LoadCall {
+    pub key: u64,
+    pub val: u64,
+    /// `/proc/<pid>/task/<tid>` of the thread that ran the loader (thread loaders only)
+    pub tid: Option<String>,
+  }
+  #[derive(Default)]
+  pub struct LoaderLog {
+    pub calls: Mutex<Vec<LoadCall>>,
+  }
+  impl LoaderLog {
+    fn record(&self, key: u64, with_tid: bool) -> u64 {
+      let tid = if with_tid {
+        std::fs::read_link("/proc/thread-self").ok().map(|p| format!("/proc/{}", p.display()))
+      } else {
+        None
+      };
+      let mut c = self.calls.lock().unwrap();
+      let val = LOAD_BASE + c.len() as u64;
+      c.push(LoadCall { key, val, tid });
+      val
+    }
+    pub fn len(&self) -> usize {
+      self.calls.lock().unwrap().len()
+    }
+    pub fn since(&self, n: usize) -> Vec<LoadCall> {
+      self.calls.lock().unwrap()[n..].to_vec()
+    }
+  }
+
+  #[derive(Clone, Copy, Debug, Serialize, Deserialize, PartialEq)]
+  pub enum LoaderKind {
+    None,
+    /// sync loader: the library runs it on a thread it spawns
+    Thread,
+    /// async loader on the harness' queue spawner
+    Task,
+  }
+
+  #[derive(Clone, Debug, Serialize, Deserialize)]
+  pub struct CacheCfg {
+    /// None = unbounded
+    pub capacity: Option<u64>,
+    /// "default" (no factory) or one of the eight policy names
+    pub policy: String,
+    pub shards: usize,
+    pub ttl: Option<u64>,
+    pub tti: Option<u64>,
+    pub grace: Option<u64>,
+    pub loader: LoaderKind,
+    pub hseed: u64,
+    pub wheel_tick_ns: Option<u64>,
+    pub wheel_size: Option<usize>,
+    pub introspect: bool,
+    pub janitor_tick_ms: u64,
+  }
+
+  fn cache_policy(name: &str, cap: u64) -> Box<dyn CachePolicy<u64, u64>> {
+    use fibre_cache::policy::*;
+    match name {
+      "tinylfu" => Box::new(tinylfu::TinyLfuPolicy::new(cap)),
+      "sieve" => Box::new(sieve::SievePolicy::new()),
+      "slru" => Box::new(slru::SlruPolicy::new(cap)),
+      "arc" => Box::new(arc::ArcPolicy::new(cap as usize)),
+      "lru" => Box::new(lru::LruPolicy::new()),
+      "fifo" => Box::new(fifo::Fifo::new()),
+      "clock" => Box::new(clock::ClockPolicy::new()),
+      "random" => Box::new(random::RandomPolicy::new()),
+      other => panic!("unknown policy {}", other),
+    }
+  }
+
+  pub struct Rig {
+    pub s: SCache,
+    pub a: ACache,
+    pub sp: Arc<QueueSpawner>,
+    pub log: Arc<LoaderLog>,
+    pub loader: LoaderKind,
+  }
+
+  fn builder(cfg: &CacheCfg, log: &Arc<LoaderLog>, sp: &Arc<QueueSpawner>) -> CacheBuilder<u64, u64, SeedHash> {
+    let mut b = CacheBuilder::<u64, u64, SeedHash>::new()
+      .hasher(SeedHash(cfg.hseed))
+      .shards(cfg.shards)
+      .janitor_tick_interval(Duration::from_millis(cfg.janitor_tick_ms))
+      // the janitor's periodic pass and the opportunistic pass on insert are both gated by
+      // this probability: 2^-31 parks them
+      .maintenance_chance(1 << 31)
+      .maintenance_on_introspection(cfg.introspect)
+      .spawner(sp.clone() as Arc<dyn TaskSpawner>);
+    b = match cfg.capacity {
+      Some(c) => b.capacity(c),
+      None => b.unbounded(),
+    };
+    if cfg.policy != "default" {
+      let name = cfg.policy.clone();
+      let shards = cfg.shards.max(1).next_power_of_two() as u64;
+      let per = cfg.capacity.map(|c| (c + shards - 1) / shards).unwrap_or(1000).min(100_000);
+      b = b.cache_policy_factory(move || cache_policy(&name, per));
+    }
+    if let Some(d) = cfg.ttl {
+      b = b.time_to_live(Duration::from_nanos(d));
+    }
+    if let Some(d) = cfg.tti {
+      b = b.time_to_idle(Duration::from_nanos(d));
+    }
+    if let Some(d) = cfg.grace {
+      b = b.stale_while_revalidate(Duration::from_nanos(d));
+    }
+    if let Some(d) = cfg.wheel_tick_ns {
+      b = b.timer_tick_duration(Duration::from_nanos(d));
+    }
+    if let Some(n) = cfg.wheel_size {
+      b = b.timer_wheel_size(n);
+    }
+    match cfg.loader {
+      LoaderKind::None => {}
+      LoaderKind::Thread => {
+        let log = log.clone();
+        b = b.loader(move |k: u64| (log.record(k, true), 1));
+      }
+      LoaderKind::Task => {
+        let log = log.clone();
+        b = b.async_loader(move |k: u64| {
+          let log = log.clone();
+          async move { (log.record(k, false), 1) }
+        });
+      }
+    }
+    b
+  }
+
+  #[derive(Clone, Debug)]
+  pub struct SnapEnt {
+    pub key: u64,
+    pub val: u64,
+    pub cost: u64,
+    pub ttl_remaining: Option<u64>,
+  }
+
+  pub fn snapshot_entries(s: &CacheSnapshot<u64, u64>) -> Vec<SnapEnt> {
+    // the entry type is crate-private: look at it through its serialized form
+    let v = serde_json::to_value(s).expect("snapshot to json");
+    v["entries"]
+      .as_array()
+      .map(|a| {
+        a.iter()
+          .map(|e| SnapEnt {
+            key: e["key"].as_u64().unwrap(),
+            val: e["value"].as_u64().unwrap(),
+            cost: e["cost"].as_u64().unwrap(),
+            ttl_remaining: if e["ttl_remaining"].is_null() {
+              None
+            } else {
+              Some(e["ttl_remaining"]["secs"].as_u64().unwrap() * 1_000_000_000 + e["ttl_remaining"]["nanos"].as_u64().unwrap())
+            },
+          })
+          .collect()
+      })
+      .unwrap_or_default()
+  }
+
+  #[derive(Clone, Debug, Serialize, Deserialize, PartialEq)]
+  pub enum IterApi {
+    /// batch 0 = `iter()`, else `iter_with_batch_size`
+    Iter { batch: usize },
+    IterSnapshot,
+    Stream { batch: usize },
+    AsyncSnapshotIter,
+    ToSnapshot { asy: bool },
+  }
+  impl IterApi {
+    pub fn comp(&self) -> &'static str {
+      match self {
+        IterApi::Iter { .. } => "iter",
+        IterApi::IterSnapshot => "iter_snapshot",
+        IterApi::Stream { .. } => "async.iter_stream",
+        IterApi::AsyncSnapshotIter => "async.iter_snapshot",
+        IterApi::ToSnapshot { asy: false } => "to_snapshot",
+        IterApi::ToSnapshot { asy: true } => "async.to_snapshot",
+      }
+    }
+    pub fn batch(&self) -> usize {
+      match self {
+        IterApi::Iter { batch } | IterApi::Stream { batch } => {
+          if *batch == 0 {
+            64
+          } else {
+            *batch
+          }
+        }
+        _ => usize::MAX,
+      }
+    }
+  }
+
+  impl Rig {
+    pub fn build(cfg: &CacheCfg) -> Result<Rig, String> {
+      let log = Arc::new(LoaderLog::default());
+      let sp = Arc::new(QueueSpawner::default());
+      let s = builder(cfg, &log, &sp).build().map_err(|e| format!("{:?}", e))?;
+      let a = s.to_async();
+      Ok(Rig { s, a, sp, log, loader: cfg.loader })
+    }
+    pub fn from_snapshot(cfg: &CacheCfg, snap: CacheSnapshot<u64, u64>, asy: bool) -> Result<Rig, String> {
+      let log = Arc::new(LoaderLog::default());
+      let sp = Arc::new(QueueSpawner::default());
+      let b = builder(cfg, &log, &sp);
+      let (s, a) = if asy {
+        let a = b.build_from_snapshot_async(snap).map_err(|e| format!("{:?}", e))?;
+        (a.to_sync(), a)
+      } else {
+        let s = b.build_from_snapshot(snap).map_err(|e| format!("{:?}", e))?;
+        let a = s.to_async();
+        (s, a)
+      };
+      Ok(Rig { s, a, sp, log, loader: cfg.loader })
+    }
+    pub fn get(&self, k: u64, asy: bool) -> Option<u64> {
+      if asy {
+        block_on(self.a.get(&k, |v| *v))
+      } else {
+        self.s.get(&k, |v| *v)
+      }
+    }
+    pub fn fetch(&self, k: u64, asy: bool) -> Option<u64> {
+      if asy {
+        block_on(self.a.fetch(&k)).map(|v| *v)
+      } else {
+        self.s.fetch(&k).map(|v| *v)
+      }
+    }
+    pub fn peek(&self, k: u64, asy: bool) -> Option<u64> {
+      if asy {
+        block_on(self.a.peek(&k)).map(|v| *v)
+      } else {
+        self.s.peek(&k).map(|v| *v)
+      }
+    }
+    pub fn entry_get(&self, k: u64, asy: bool) -> Option<u64> {
+      if asy {
+        block_on(async {
+          match self.a.entry(k).await {
+            AsyncEntry::Occupied(o) => Some(*o.get()),
+            AsyncEntry::Vacant(_) => None,
+          }
+        })
+      } else {
+        match self.s.entry(k) {
+          Entry::Occupied(o) => Some(*o.get()),
+          Entry::Vacant(_) => None,
+        }
+      }
+    }
+    pub fn entry_or_insert(&self, k: u64, v: u64, cost: u64, asy: bool) -> u64 {
+      if asy {
+        block_on(async { *self.a.entry(k).await.or_insert(v, cost) })
+      } else {
+        *self.s.entry(k).or_insert(v, cost)
+      }
+    }
+    pub fn multiget(&self, ks: &[u64], asy: bool) -> BTreeMap<u64, u64> {
+      if asy {
+        block_on(self.a.multiget::<_, u64>(ks.to_vec())).into_iter().map(|(k, v)| (k, *v)).collect()
+      } else {
+        self.s.multiget::<_, u64>(ks.to_vec()).into_iter().map(|(k, v)| (k, *v)).collect()
+      }
+    }
+    pub fn insert(&self, k: u64, v: u64, cost: u64, asy: bool) {
+      if asy {
+        block_on(self.a.insert(k, v, cost))
+      } else {
+        self.s.insert(k, v, cost)
+      }
+    }
+    pub fn insert_ttl(&self, k: u64, v: u64, cost: u64, ttl: u64, asy: bool) {
+      let d = Duration::from_nanos(ttl);
+      if asy {
+        block_on(self.a.insert_with_ttl(k, v, cost, d))
+      } else {
+        self.s.insert_with_ttl(k, v, cost, d)
+      }
+    }
+    pub fn remove(&self, k: u64, asy: bool) -> Option<u64> {
+      if asy {
+        block_on(self.a.remove(&k)).map(|v| *v)
+      } else {
+        self.s.remove(&k).map(|v| *v)
+      }
+    }
+    pub fn maintain(&self, asy: bool) {
+      if asy {
+        block_on(self.a.run_maintenance())
+      } else {
+        self.s.run_maintenance()
+      }
+    }
+    pub fn snapshot(&self, asy: bool) -> CacheSnapshot<u64, u64> {
+      if asy {
+        block_on(self.a.to_snapshot())
+      } else {
+        self.s.to_snapshot()
+      }
+    }
+    /// Runs whatever the library queued on the spawner (background refreshes) to completion.
+    pub fn run_spawned(&self) -> u64 {
+      let mut n = 0;
+      while let Some(t) = self.sp.pop() {
+        n += 1;
+        drive(t, Some(&self.sp));
+      }
+      n
+    }
+    pub fn fetch_with(&self, k: u64, asy: bool) -> u64 {
+      if asy {
+        *drive(self.a.fetch_with(&k), Some(&self.sp))
+      } else {
+        *self.s.fetch_with(&k)
+      }
+    }
+    /// Enumerates through `api`; `hook(i)` runs before the i-th `next()`. Stops after `limit`
+    /// items (a cursor that does not advance would never end).
+    pub fn iterate(&self, api: &IterApi, limit: usize, hook: &mut dyn FnMut(usize)) -> (Vec<(u64, u64)>, Vec<SnapEnt>) {
+      let mut out: Vec<(u64, u64)> = Vec::new();
+      let mut snap: Vec<SnapEnt> = Vec::new();
+      let mut i = 0usize;
+      match api {
+        IterApi::Iter { batch } => {
+          let mut it = if *batch == 0 { self.s.iter() } else { self.s.iter_with_batch_size(*batch) };
+          loop {
+            hook(i);
+            i += 1;
+            match it.next() {
+              Some((k, v)) => out.push((k, *v)),
+              None => break,
+            }
+            if out.len() > limit {
+              break;
+            }
+          }
+        }
+        IterApi::IterSnapshot => {
+          let mut it = self.s.iter_snapshot();
+          loop {
+            hook(i);
+            i += 1;
+            match it.next() {
+              Some((k, v)) => out.push((k, *v)),
+              None => break,
+            }
+            if out.len() > limit {
+              break;
+            }
+          }
+        }
+        IterApi::Stream { batch } => {
+          let mut st = if *batch == 0 { self.a.iter_stream() } else { self.a.iter_stream_with_batch_size(*batch) };
+          loop {
+            hook(i);
+            i += 1;
+            match block_on(st.next()) {
+              Some((k, v)) => out.push((k, *v)),
+              None => break,
+            }
+            if out.len() > limit {
+              break;
+            }
+          }
+        }
+        IterApi::AsyncSnapshotIter => {
+          let mut it = self.a.iter_snapshot_async();
+          loop {
+            hook(i);
+            i += 1;
+            match block_on(it.next()) {
+              Some((k, v)) => out.push((k, *v)),
+              None => break,
+            }
+            if out.len() > limit {
+              break;
+            }
+          }
+        }
+        IterApi::ToSnapshot { asy } => {
+          hook(0);
+          snap = snapshot_entries(&self.snapshot(*asy));
+          out = snap.iter().map(|e| (e.key, e.val)).collect();
+        }
+      }
+      (out, snap)
+    }
+  }
+
+  /// Waits (wall clock, watchdog only) until the threads that ran the given loader calls are gone.
+  fn wait_threads_gone(calls: &[LoadCall]) -> bool {
+    let start = Instant::now();
+    for c in calls {
+      let Some(p) = &c.tid else { return false };
+      while std::path::Path::new(p).exists() {
+        if start.elapsed() > Duration::from_secs(5) {
+          return false;
+        }
+        std::thread::yield_now();
+      }
+    }
+    true
+  }
+
+  static CLOCK_INIT: std::sync::Once = std::sync::Once::new();
+  /// Freezes the cache clock (time then only moves through `advance`) and returns now.
+  pub fn freeze_clock() -> u64 {
+    vc::freeze();
+    CLOCK_INIT.call_once(|| vc::advance(Duration::from_secs(1)));
+    vc::now_nanos()
+  }
+  fn advance(ns: u64) -> u64 {
+    vc::advance(Duration::from_nanos(ns));
+    vc::now_nanos()
+  }
+
+  // ------------------------------------------------------------------ findings
+
+  #[derive(Clone, Debug)]
+  pub struct Finding {
+    pub prop: &'static str,
+    pub comp: String,
+    pub rule: String,
+    pub variant: String,
+    pub at: usize,
+    pub detail: String,
+  }
+  impl Finding {
+    pub fn sig(&self) -> String {
+      format!("{}/{}/{}/{}", self.prop, self.comp, self.rule, self.variant)
+    }
+  }
+
+  #[derive(Default)]
+  pub struct Outcome {
+    pub findings: Vec<Finding>,
+    /// things seen that belong to another property (never violations here)
+    pub other: BTreeMap<String, u64>,
+    pub counters: BTreeMap<String, u64>,
+    pub trace: Vec<String>,
+    pub inconclusive: Vec<String>,
+    pub nontrivial: bool,
+    pub shape: u64,
+  }
+  impl Outcome {
+    fn c(&mut self, k: &str, n: u64) {
+      *self.counters.entry(k.to_string()).or_default() += n;
+    }
+    fn o(&mut self, k: &str) {
+      *self.other.entry(k.to_string()).or_default() += 1;
+    }
+  }
+
+  fn comp(name: &str, asy: bool) -> String {
+    if asy {
+      format!("async.{}", name)
+    } else {
+      name.to_string()
+    }
+  }
+
+  // ------------------------------------------------------------------ C12 model
+
+  #[derive(Clone, Copy, Debug, PartialEq)]
+  enum Origin {
+    Insert,
+    InsertTtl,
+    Entry,
+    Loader,
+    Refresh,
+  }
+  impl Origin {
+    fn name(self) -> &'static str {
+      match self {
+        Origin::Insert => "inserted-by-insert",
+        Origin::InsertTtl => "inserted-by-insert_with_ttl",
+        Origin::Entry => "inserted-by-entry",
+        Origin::Loader => "inserted-by-loader",
+        Origin::Refresh => "inserted-by-stale-refresh",
+      }
+    }
+    /// coarse class used in signatures
+    fn class(self) -> &'static str {
+      match self {
+        Origin::Insert | Origin::InsertTtl => "inserted-directly",
+        _ => "inserted-by-entry-or-loader",
+      }
+    }
+  }
+
+  #[derive(Clone, Debug)]
+  struct Ent {
+    val: u64,
+    cost: u64,
+    exp: Option<u64>,
+    item_ttl: bool,
+    /// interval of possible last-access instants (TTI reference)
+    la_lo: u64,
+    la_hi: u64,
+    origin: Origin,
+    /// false once something may legitimately have collected it
+    sure: bool,
+  }
+
+  #[derive(Clone, Copy, PartialEq)]
+  enum Rc {
+    Refresh,
+    NoRefresh,
+    Open,
+  }
+
+  struct Model {
+    ttl: Option<u64>,
+    tti: Option<u64>,
+    grace: Option<u64>,
+    ents: BTreeMap<u64, Ent>,
+    /// keys the model lost track of (after a violation / foreign value): nothing is asserted
+    unknown: BTreeSet<u64>,
+  }
+
+  impl Model {
+    /// Some(cause) if the entry is expired at `t` whatever the open choices were.
+    fn def_expired(&self, e: &Ent, t: u64) -> Option<&'static str> {
+      if let Some(x) = e.exp {
+        if t >= x {
+          return Some(if e.item_ttl { "item-ttl" } else { "ttl" });
+        }
+      }
+      if let Some(d) = self.tti {
+        if t >= e.la_hi.saturating_add(d) {
+          return Some("tti");
+        }
+      }
+      None
+    }
+    /// certainly present and certainly unexpired at `t`
+    fn def_live(&self, e: &Ent, t: u64) -> bool {
+      e.sure && e.exp.map_or(true, |x| t < x) && self.tti.map_or(true, |d| t < e.la_lo.saturating_add(d))
+    }
+    fn tti_live(&self, e: &Ent, t: u64) -> bool {
+      self.tti.map_or(true, |d| t < e.la_lo.saturating_add(d))
+    }
+    fn in_grace(&self, e: &Ent, t: u64) -> bool {
+      match (self.grace, e.exp) {
+        (Some(g), Some(x)) => t >= x && t < x.saturating_add(g),
+        _ => false,
+      }
+    }
+    fn new_ent(&self, val: u64, cost: u64, t: u64, item_ttl: Option<u64>, origin: Origin) -> Ent {
+      let (exp, item) = match item_ttl {
+        Some(d) => (Some(t + d), true),
+        None => (self.ttl.map(|d| t + d), false),
+      };
+      Ent { val, cost, exp, item_ttl: item, la_lo: t, la_hi: t, origin, sure: true }
+    }
+  }
+
+  #[derive(Clone, Debug, Serialize, Deserialize, PartialEq)]
+  pub enum Op {
+    Insert { k: u64, cost: u64, asy: bool },
+    InsertTtl { k: u64, cost: u64, ttl: u64, asy: bool },
+    Remove { k: u64, asy: bool },
+    Advance { ns: u64 },
+    Maintain { asy: bool },
+    /// peek every key the model holds certainly live (second opinion by get)
+    Audit,
+    Get { k: u64, asy: bool },
+    Fetch { k: u64, asy: bool },
+    Peek { k: u64, asy: bool },
+    EntryGet { k: u64, asy: bool },
+    EntryOrInsert { k: u64, asy: bool },
+    Multiget { ks: Vec<u64>, asy: bool },
+    Enumerate { api: IterApi },
+    FetchWith { k: u64, asy: bool },
+  }
+
+  impl Op {
+    fn name(&self) -> String {
+      match self {
+        Op::Insert { asy, .. } => comp("insert", *asy),
+        Op::InsertTtl { asy, .. } => comp("insert_with_ttl", *asy),
+        Op::Remove { asy, .. } => comp("remove", *asy),
+        Op::Advance { .. } => "advance".into(),
+        Op::Maintain { asy } => comp("run_maintenance", *asy),
+        Op::Audit => "audit".into(),
+        Op::Get { asy, .. } => comp("get", *asy),
+        Op::Fetch { asy, .. } => comp("fetch", *asy),
+        Op::Peek { asy, .. } => comp("peek", *asy),
+        Op::EntryGet { asy, .. } | Op::EntryOrInsert { asy, .. } => comp("entry", *asy),
+        Op::Multiget { asy, .. } => comp("multiget", *asy),
+        Op::Enumerate { api } => api.comp().to_string(),
+        Op::FetchWith { asy, .. } => comp("fetch_with", *asy),
+      }
+    }
+  }
+
+  pub struct Gen12 {
+    pub keys: Vec<u64>,
+    pub len: usize,
+    pub weights: Vec<u32>,
+  }
+
+  pub enum Source<'a> {
+    Gen(&'a mut Rng, Gen12),
+    Fixed(&'a [Op]),
+  }
+
+  struct Run12<'a> {
+    cfg: &'a CacheCfg,
+    rig: Rig,
+    m: Model,
+    now: u64,
+    out: Outcome,
+    next_val: u64,
+    ops: Vec<Op>,
+    last_mutator: String,
+    loads_seen: usize,
+    aborted: bool,
+  }
+
+  const DURS: [u64; 12] =
+    [1, 2, 5, 1_000, 1_000_000, 50_000_000, 1_000_000_000, 1_500_000_000, 5_000_000_000, 61_000_000_000, 3_600_000_000_000, 0];
+
+  pub fn gen_cfg12(rng: &mut Rng, janitor_tick_ms: u64) -> CacheCfg {
+    let pick_dur = |rng: &mut Rng| -> u64 {
+      let d = *rng.pick(&DURS);
+      if d == 0 {
+        // zero TTL only rarely: the entry is expired the instant it is inserted
+        if rng.chance(1, 6) {
+          0
+        } else {
+          rng.range(1, 2_000_000_000)
+        }
+      } else {
+        d
+      }
+    };
+    let mode = rng.below(10);
+    // 0-3 TTL only, 4-5 TTI only, 6 both, 7-9 stale-while-revalidate (needs TTL + loader)
+    let (ttl, tti, grace) = match mode {
+      0..=3 => (Some(pick_dur(rng)), None, None),
+      4 | 5 => (None, Some(pick_dur(rng).max(1)), None),
+      6 => (Some(pick_dur(rng)), Some(pick_dur(rng).max(1)), None),
+      _ => (
+        Some(pick_dur(rng)),
+        if rng.chance(1, 8) { Some(pick_dur(rng).max(1)) } else { None },
+        Some(pick_dur(rng).max(1)),
+      ),
+    };
+    let loader = if grace.is_some() || rng.chance(1, 3) {
+      if rng.chance(1, 2) {
+        LoaderKind::Task
+      } else {
+        LoaderKind::Thread
+      }
+    } else {
+      LoaderKind::None
+    };
+    let (wheel_tick_ns, wheel_size) = match rng.below(4) {
+      0 => (None, None),
+      1 => (Some(10_000_000), Some(100)),
+      2 => (Some(30_000_000_000), Some(120)),
+      _ => (Some(*rng.pick(&[1_000_000u64, 100_000_000, 1_000_000_000])), Some(*rng.pick(&[1usize, 2, 8, 60]))),
+    };
+    CacheCfg {
+      capacity: None,
+      policy: "default".into(),
+      shards: *rng.pick(&[1usize, 1, 2, 4, 8]),
+      ttl,
+      tti,
+      grace,
+      loader,
+      hseed: rng.next(),
+      wheel_tick_ns,
+      wheel_size,
+      introspect: rng.chance(1, 4),
+      janitor_tick_ms,
+    }
+  }
+
+  pub fn gen_plan12(rng: &mut Rng, cfg: &CacheCfg, max_len: u64) -> Gen12 {
+    let nkeys = rng.range(1, 6);
+    let base = rng.below(1 << 20) * 8;
+    let keys: Vec<u64> = (0..nkeys).map(|i| base + i).collect();
+    let has_loader = cfg.loader != LoaderKind::None;
+    // order: insert, insert_ttl, remove, advance, maintain, audit, get, fetch, peek, entry_get,
+    //        entry_or_insert, multiget, enumerate, fetch_with
+    let maintain = if rng.chance(2, 5) { 0 } else { rng.range(1, 6) as u32 };
+    let weights = vec![
+      14,
+      if rng.chance(1, 3) { 0 } else { 8 },
+      2,
+      22,
+      maintain,
+      3,
+      6,
+      6,
+      6,
+      5,
+      4,
+      4,
+      9,
+      if has_loader { 10 } else { 0 },
+    ];
+    Gen12 { keys, len: rng.range(8, max_len.max(9)) as usize, weights }
+  }
+
+  impl<'a> Run12<'a> {
+    fn viol(&mut self, comp: &str, rule: &str, variant: &str, at: usize, detail: String) {
+      self.out.findings.push(Finding { prop: "C12", comp: comp.into(), rule: rule.into(), variant: variant.into(), at, detail });
+    }
+
+    fn gen_op(&self, rng: &mut Rng, g: &Gen12) -> Op {
+      let k = *rng.pick(&g.keys);
+      let asy = rng.chance(1, 2);
+      match rng.weighted(&g.weights) {
+        0 => Op::Insert { k, cost: rng.range(0, 3), asy },
+        1 => {
+          let mut d = *rng.pick(&DURS);
+          if d == 0 && !rng.chance(1, 6) {
+            d = rng.range(1, 3_000_000_000);
+          }
+          Op::InsertTtl { k, cost: 1, ttl: d, asy }
+        }
+        2 => Op::Remove { k, asy },
+        3 => {
+          // interesting instants: deadlines, idle deadlines, ends of grace windows
+          let mut inst: Vec<u64> = Vec::new();
+          for e in self.m.ents.values() {
+            if let Some(x) = e.exp {
+              inst.push(x);
+              if let Some(gr) = self.m.grace {
+                inst.push(x.saturating_add(gr));
+              }
+            }
+            if let Some(d) = self.m.tti {
+              inst.push(e.la_lo.saturating_add(d));
+              inst.push(e.la_hi.saturating_add(d));
+            }
+          }
+          inst.retain(|x| *x >= self.now && *x < self.now + (1 << 50));
+          if !inst.is_empty() && rng.chance(3, 4) {
+            let d = *rng.pick(&inst);
+            let target = match rng.below(4) {
+              0 => d.saturating_sub(1),
+              1 | 2 => d,
+              _ => d + 1,
+            };
+            if target > self.now {
+              return Op::Advance { ns: target - self.now };
+            }
+            return Op::Advance { ns: 1 };
+          }
+          Op::Advance { ns: *rng.pick(&[1u64, 1, 10, 1_000, 1_000_000, 100_000_000, 1_000_000_000, 10_000_000_000]) }
+        }
+        4 => Op::Maintain { asy },
+        5 => Op::Audit,
+        6 => Op::Get { k, asy },
+        7 => Op::Fetch { k, asy },
+        8 => Op::Peek { k, asy },
+        9 => Op::EntryGet { k, asy },
+        10 => Op::EntryOrInsert { k, asy },
+        11 => {
+          let n = rng.range(1, g.keys.len() as u64 + 1);
+          let mut ks: Vec<u64> = (0..n).map(|_| *rng.pick(&g.keys)).collect();
+          if rng.chance(1, 3) {
+            ks.push(g.keys[0] + 100);
+          }
+          ks.sort();
+          ks.dedup();
+          Op::Multiget { ks, asy }
+        }
+        12 => Op::Enumerate {
+          api: match rng.below(8) {
+            0 => IterApi::Iter { batch: 0 },
+            1 => IterApi::Iter { batch: *rng.pick(&[1usize, 2, 3]) },
+            2 => IterApi::IterSnapshot,
+            3 => IterApi::Stream { batch: 0 },
+            4 => IterApi::Stream { batch: *rng.pick(&[1usize, 2, 3]) },
+            5 => IterApi::AsyncSnapshotIter,
+            6 => IterApi::ToSnapshot { asy: false },
+            _ => IterApi::ToSnapshot { asy: true },
+          },
+        },
+        _ => {
+          let asy = match self.cfg.loader {
+            LoaderKind::Task => true,
+            _ => asy,
+          };
+          Op::FetchWith { k, asy }
+        }
+      }
+    }
+
+    /// Judges what a read returned for `k` (not used for fetch_with).
+    fn check_read(&mut self, cmp: &str, k: u64, obs: Option<u64>, rc: Rc, at: usize) {
+      let t = self.now;
+      if self.m.unknown.contains(&k) {
+        self.out.c("reads/on_key_in_unknown_state", 1);
+        return;
+      }
+      let Some(e) = self.m.ents.get(&k).cloned() else {
+        match obs {
+          None => self.out.c("reads/absent_key_none", 1),
+          Some(_) => {
+            self.out.o(&format!("C11/{}/value-for-removed-or-never-inserted-key", cmp));
+            self.m.unknown.insert(k);
+          }
+        }
+        return;
+      };
+      let expired = self.m.def_expired(&e, t);
+      if expired.is_some() {
+        self.out.c("crossings/reads_of_expired_entry", 1);
+        self.out.nontrivial = true;
+      }
+      match obs {
+        Some(v) if v != e.val => {
+          self.out.o(&format!("C11/{}/value-differs-from-last-write", cmp));
+          self.m.unknown.insert(k);
+        }
+        Some(v) => {
+          if let Some(cause) = expired {
+            self.out.c(&format!("verdicts/expired-served/{}", cmp), 1);
+            let x = e.exp.unwrap_or(0);
+            self.viol(
+              cmp,
+              "expired-served",
+              cause,
+              at,
+              format!(
+                "{} returned value {} of key {} at t={} although it expired ({}): ttl deadline {:?}, last access in [{},{}], tti {:?}; {}",
+                cmp, v, k, t, cause, e.exp, e.la_lo, e.la_hi, self.m.tti,
+                if cause == "tti" { "".to_string() } else { format!("{} ns past the deadline", t - x) }
+              ),
+            );
+          } else {
+            self.out.c("verdicts/served_while_possibly_live", 1);
+            if let Some(en) = self.m.ents.get_mut(&k) {
+              en.sure = true;
+              if self.m.tti.is_some() {
+                match rc {
+                  Rc::Refresh => {
+                    en.la_lo = t;
+                    en.la_hi = t;
+                  }
+                  Rc::Open => en.la_hi = en.la_hi.max(t),
+                  Rc::NoRefresh => {}
+                }
+              }
+            }
+          }
+        }
+        None => {
+          if self.m.def_live(&e, t) {
+            self.out.c(&format!("verdicts/unexpired-missing/{}", cmp), 1);
+            self.viol(
+              cmp,
+              "unexpired-missing",
+              e.origin.class(),
+              at,
+              format!(
+                "{} reported key {} missing at t={} on an unbounded cache although it is unexpired and was present at the last audit: \
+                 value {}, ttl deadline {:?}, last access in [{},{}], tti {:?}, {}",
+                cmp, k, t, e.val, e.exp, e.la_lo, e.la_hi, self.m.tti, e.origin.name()
+              ),
+            );
+            self.m.ents.remove(&k);
+            self.m.unknown.insert(k);
+          } else {
+            self.out.c("verdicts/none_while_possibly_expired_or_collected", 1);
+          }
+        }
+      }
+    }
+
+    /// peek (second opinion: get) every key that must be there; blames `blame` for a loss.
+    fn audit(&mut self, blame: &str, at: usize) {
+      let t = self.now;
+      let ks: Vec<u64> = self.m.ents.iter().filter(|(_, e)| self.m.def_live(e, t)).map(|(k, _)| *k).collect();
+      for k in ks {
+        let e = self.m.ents[&k].clone();
+        self.out.c("audit/peeks", 1);
+        match self.rig.peek(k, false) {
+          Some(v) if v == e.val => {}
+          Some(_) => {
+            self.out.o(&format!("C11/{}/value-differs-from-last-write", blame));
+            self.m.ents.remove(&k);
+            self.m.unknown.insert(k);
+          }
+          None => {
+            let g = self.rig.get(k, false);
+            if g == Some(e.val) {
+              // the entry is there: peek is the one that lost it
+              if let Some(en) = self.m.ents.get_mut(&k) {
+                if self.m.tti.is_some() {
+                  en.la_lo = t;
+                  en.la_hi = t;
+                }
+              }
+              self.viol(
+                "peek",
+                "unexpired-missing",
+                e.origin.class(),
+                at,
+                format!("peek reported key {} missing at t={} while get returns its value {} (unexpired, unbounded cache)", k, t, e.val),
+              );
+            } else {
+              self.out.c(&format!("verdicts/unexpired-missing/{}", blame), 1);
+              self.viol(
+                blame,
+                "unexpired-removed",
+                e.origin.class(),
+                at,
+                format!(
+                  "after {} key {} is gone (peek and get both miss) at t={} on an unbounded cache although it is unexpired: value {}, \
+                   ttl deadline {:?}, last access in [{},{}], tti {:?}, {}",
+                  blame, k, t, e.val, e.exp, e.la_lo, e.la_hi, self.m.tti, e.origin.name()
+                ),
+              );
+              self.m.ents.remove(&k);
+              self.m.unknown.insert(k);
+            }
+          }
+        }
+      }
+    }
+
+    fn late_loads(&mut self) {
+      // a loader call nobody asked for in this step (e.g. a refresh triggered by a fresh hit):
+      // not a C12 matter, but the model no longer knows the key's value
+      let n = self.rig.log.len();
+      if n != self.loads_seen {
+        let calls = self.rig.log.since(self.loads_seen);
+        wait_threads_gone(&calls);
+        for c in calls {
+          self.out.o("C15/loader/unrequested-load");
+          self.m.ents.remove(&c.key);
+          self.m.unknown.insert(c.key);
+        }
+        self.loads_seen = self.rig.log.len();
+      }
+    }
+
+    fn do_fetch_with(&mut self, k: u64, asy: bool, at: usize) {
+      let t = self.now;
+      let cmp = comp("fetch_with", asy);
+      let before = self.rig.log.len();
+      let pre = self.m.ents.get(&k).cloned();
+      let unknown = self.m.unknown.contains(&k);
+      let r = self.rig.fetch_with(k, asy);
+      let stale_serve = pre.as_ref().map_or(false, |e| r == e.val && self.m.in_grace(e, t));
+      // ---- let the loader activity settle
+      let mut settled = true;
+      match self.cfg.loader {
+        LoaderKind::Task => {
+          self.rig.run_spawned();
+        }
+        LoaderKind::Thread => {
+          if stale_serve {
+            // the refresh thread was spawned inside fetch_with; wait for its loader call
+            let start = Instant::now();
+            while !self.rig.log.since(before).iter().any(|c| c.key == k) {
+              if start.elapsed() > Duration::from_secs(2) {
+                settled = false;
+                break;
+              }
+              std::thread::yield_now();
+            }
+          }
+          if !wait_threads_gone(&self.rig.log.since(before)) {
+            settled = false;
+          }
+        }
+        LoaderKind::None => {}
+      }
+      let calls = self.rig.log.since(before);
+      self.loads_seen = self.rig.log.len();
+      let mine: Vec<u64> = calls.iter().filter(|c| c.key == k).map(|c| c.val).collect();
+      for c in calls.iter().filter(|c| c.key != k) {
+        self.out.o("C15/loader/load-of-other-key");
+        self.m.ents.remove(&c.key);
+        self.m.unknown.insert(c.key);
+      }
+      self.out.c("fetch_with/loader_calls", mine.len() as u64);
+      if !settled {
+        self.out.inconclusive.push(format!("{}: loader thread activity did not settle within the watchdog", cmp));
+        self.m.ents.remove(&k);
+        self.m.unknown.insert(k);
+        self.aborted = true;
+        return;
+      }
+      let loaded = |m: &Model, v: u64, origin: Origin| -> Ent { m.new_ent(v, 1, t, None, origin) };
+      if unknown {
+        if mine.last() == Some(&r) {
+          let e = loaded(&self.m, r, Origin::Loader);
+          self.m.unknown.remove(&k);
+          self.m.ents.insert(k, e);
+        }
+        return;
+      }
+      let Some(e) = pre else {
+        // certainly absent: the value must come from the loader
+        self.out.c("fetch_with/miss_load", 1);
+        if mine.contains(&r) && mine.last() == Some(&r) {
+          let e = loaded(&self.m, r, Origin::Loader);
+          self.m.ents.insert(k, e);
+        } else {
+          self.out.o(&format!("C15/{}/value-not-from-this-load", cmp));
+          self.m.unknown.insert(k);
+        }
+        return;
+      };
+      let expired = self.m.def_expired(&e, t);
+      let grace = self.m.in_grace(&e, t);
+      if expired.is_some() {
+        self.out.c("crossings/reads_of_expired_entry", 1);
+        self.out.nontrivial = true;
+      }
+      if r == e.val {
+        if grace {
+          self.out.c("fetch_with/stale_served_in_grace", 1);
+          self.out.nontrivial = true;
+          match mine.len() {
+            0 => {
+              self.viol(
+                &cmp,
+                "stale-no-refresh",
+                "in-grace",
+                at,
+                format!(
+                  "{} served stale value {} of key {} at t={} (deadline {:?}, grace {:?}) but no refresh ran: loader calls for the key: 0",
+                  cmp, r, k, t, e.exp, self.m.grace
+                ),
+              );
+              // still the stale entry
+            }
+            n => {
+              if n > 1 {
+                self.viol(
+                  &cmp,
+                  "refresh-ran-more-than-once",
+                  "in-grace",
+                  at,
+                  format!("{} served stale value of key {} once but the loader ran {} times", cmp, k, n),
+                );
+              }
+              let v2 = *mine.last().unwrap();
+              let ne = self.m.new_ent(v2, 1, t, None, Origin::Refresh);
+              self.m.ents.insert(k, ne);
+              let p = self.rig.peek(k, false);
+              self.out.c("fetch_with/refresh_completed", 1);
+              // (with a zero TTL the refreshed entry is itself expired at once: nothing to see)
+              let new_live = self.m.def_live(&self.m.ents[&k], t);
+              if (new_live && p != Some(v2)) || (!new_live && p == Some(e.val)) {
+                let variant = match p {
+                  Some(x) if x == e.val => "stale-value-kept",
+                  None => "entry-gone",
+                  _ => "other-value",
+                };
+                self.viol(
+                  &cmp,
+                  "refresh-not-replacing",
+                  variant,
+                  at,
+                  format!(
+                    "after the refresh of key {} completed (loader returned {}) peek returns {:?} at t={} (stale value was {})",
+                    k, v2, p, t, e.val
+                  ),
+                );
+                self.m.ents.remove(&k);
+                self.m.unknown.insert(k);
+              }
+            }
+          }
+        } else if let Some(cause) = expired {
+          let variant = if cause == "tti" {
+            "tti".to_string()
+          } else if self.m.grace.is_some() {
+            format!("{}-beyond-grace", cause)
+          } else {
+            cause.to_string()
+          };
+          self.out.c(&format!("verdicts/expired-served/{}", cmp), 1);
+          self.viol(
+            &cmp,
+            "expired-served",
+            &variant,
+            at,
+            format!(
+              "{} returned value {} of key {} at t={} although it expired ({}): ttl deadline {:?}, grace {:?}, last access in [{},{}], tti {:?}",
+              cmp, r, k, t, cause, e.exp, self.m.grace, e.la_lo, e.la_hi, self.m.tti
+            ),
+          );
+          if let Some(v2) = mine.last() {
+            let ne = loaded(&self.m, *v2, Origin::Loader);
+            self.m.ents.insert(k, ne);
+          }
+        } else {
+          self.out.c("fetch_with/hit", 1);
+          if !mine.is_empty() {
+            self.out.o("C15/loader/load-on-hit");
+            self.m.ents.remove(&k);
+            self.m.unknown.insert(k);
+          } else if let Some(en) = self.m.ents.get_mut(&k) {
+            en.sure = true;
+            if self.m.tti.is_some() {
+              en.la_lo = t;
+              en.la_hi = t;
+            }
+          }
+        }
+      } else if mine.last() == Some(&r) {
+        // the library treated it as a miss and loaded
+        self.out.c("fetch_with/miss_load", 1);
+        if self.m.def_live(&e, t) {
+          self.out.c(&format!("verdicts/unexpired-missing/{}", cmp), 1);
+          self.viol(
+            &cmp,
+            "unexpired-missing",
+            e.origin.class(),
+            at,
+            format!(
+              "{} ran the loader for key {} at t={} although the entry (value {}) is unexpired: deadline {:?}, last access in [{},{}], tti {:?}",
+              cmp, k, t, e.val, e.exp, e.la_lo, e.la_hi, self.m.tti
+            ),
+          );
+        } else if grace && e.sure && self.m.tti_live(&e, t) {
+          self.viol(
+            &cmp,
+            "stale-not-served",
+            "in-grace",
+            at,
+            format!(
+              "{} loaded key {} synchronously at t={} although its stale value {} is inside the grace window (deadline {:?}, grace {:?})",
+              cmp, k, t, e.val, e.exp, self.m.grace
+            ),
+          );
+        }
+        let ne = loaded(&self.m, r, Origin::Loader);
+        self.m.ents.insert(k, ne);
+      } else {
+        self.out.o(&format!("C11/{}/value-differs-from-last-write", cmp));
+        self.m.ents.remove(&k);
+        self.m.unknown.insert(k);
+      }
+    }
+
+    fn step(&mut self, op: &Op, at: usize) {
+      self.late_loads();
+      let t = self.now;
+      self.out.c(&format!("ops/{}", op.name()), 1);
+      match op {
+        Op::Insert { k, cost, asy } => {
+          let v = self.next_val;
+          self.next_val += 1;
+          self.rig.insert(*k, v, *cost, *asy);
+          if self.m.ents.contains_key(k) {
+            self.out.c("writes/overwrite", 1);
+          }
+          let e = self.m.new_ent(v, *cost, t, None, Origin::Insert);
+          self.m.unknown.remove(k);
+          self.m.ents.insert(*k, e);
+          self.last_mutator = op.name();
+        }
+        Op::InsertTtl { k, cost, ttl, asy } => {
+          let v = self.next_val;
+          self.next_val += 1;
+          self.rig.insert_ttl(*k, v, *cost, *ttl, *asy);
+          if self.m.ents.contains_key(k) {
+            self.out.c("writes/overwrite", 1);
+          }
+          let e = self.m.new_ent(v, *cost, t, Some(*ttl), Origin::InsertTtl);
+          self.m.unknown.remove(k);
+          self.m.ents.insert(*k, e);
+          self.last_mutator = op.name();
+        }
+        Op::Remove { k, asy } => {
+          let r = self.rig.remove(*k, *asy);
+          self.trace_push(format!("{} -> {:?}", op.name(), r));
+          self.m.ents.remove(k);
+          self.m.unknown.remove(k);
+          self.last_mutator = op.name();
+        }
+        Op::Advance { ns } => {
+          let before = self.now;
+          self.now = advance(*ns);
+          // evidence: which deadlines were crossed / hit exactly
+          let mut inst: Vec<u64> = Vec::new();
+          for e in self.m.ents.values() {
+            if let Some(x) = e.exp {
+              inst.push(x);
+              if let Some(g) = self.m.grace {
+                inst.push(x.saturating_add(g));
+              }
+            }
+            if let Some(d) = self.m.tti {
+              inst.push(e.la_hi.saturating_add(d));
+            }
+          }
+          for x in inst {
+            if x > before && x <= self.now {
+              self.out.c("crossings/deadlines_crossed", 1);
+            }
+            if x == self.now && x > before {
+              self.out.c("crossings/landed_exactly_on_deadline", 1);
+            }
+            if x == self.now + 1 {
+              self.out.c("crossings/landed_1ns_before_deadline", 1);
+            }
+            if x + 1 == self.now && x >= before {
+              self.out.c("crossings/landed_1ns_after_deadline", 1);
+            }
+          }
+        }
+        Op::Maintain { asy } => {
+          self.rig.maintain(*asy);
+          let ks: Vec<u64> = self.m.ents.keys().copied().collect();
+          for k in ks {
+            let live = self.m.def_live(&self.m.ents[&k], t);
+            if !live {
+              // possibly expired: the pass may have collected it
+              self.m.ents.get_mut(&k).unwrap().sure = false;
+            }
+          }
+          // both flavours run the same janitor routines
+          self.last_mutator = "run_maintenance".into();
+          self.audit("run_maintenance", at);
+        }
+        Op::Audit => {
+          let blame = self.last_mutator.clone();
+          self.audit(&blame, at);
+        }
+        Op::Get { k, asy } => {
+          let r = self.rig.get(*k, *asy);
+          self.trace_push(format!("{}({}) -> {:?}", op.name(), k, r));
+          self.check_read(&op.name(), *k, r, Rc::Refresh, at);
+        }
+        Op::Fetch { k, asy } => {
+          let r = self.rig.fetch(*k, *asy);
+          self.trace_push(format!("{}({}) -> {:?}", op.name(), k, r));
+          self.check_read(&op.name(), *k, r, Rc::Refresh, at);
+        }
+        Op::Peek { k, asy } => {
+          let r = self.rig.peek(*k, *asy);
+          self.trace_push(format!("{}({}) -> {:?}", op.name(), k, r));
+          self.check_read(&op.name(), *k, r, Rc::NoRefresh, at);
+        }
+        Op::EntryGet { k, asy } => {
+          let r = self.rig.entry_get(*k, *asy);
+          self.trace_push(format!("{}({}) -> {:?}", op.name(), k, r.map(|v| format!("Occupied({})", v)).unwrap_or("Vacant".into())));
+          self.check_read(&op.name(), *k, r, Rc::Open, at);
+        }
+        Op::EntryOrInsert { k, asy } => {
+          let v = self.next_val;
+          self.next_val += 1;
+          let r = self.rig.entry_or_insert(*k, v, 1, *asy);
+          self.trace_push(format!("{}({}).or_insert({}) -> {}", op.name(), k, v, r));
+          if r == v {
+            // vacant: the default went in
+            self.check_read(&op.name(), *k, None, Rc::Open, at);
+            let e = self.m.new_ent(v, 1, t, None, Origin::Entry);
+            self.m.unknown.remove(k);
+            self.m.ents.insert(*k, e);
+            self.last_mutator = op.name();
+          } else {
+            self.check_read(&op.name(), *k, Some(r), Rc::Open, at);
+          }
+        }
+        Op::Multiget { ks, asy } => {
+          let r = self.rig.multiget(ks, *asy);
+          self.trace_push(format!("{}({:?}) -> {:?}", op.name(), ks, r));
+          for k in ks {
+            self.check_read(&op.name(), *k, r.get(k).copied(), Rc::Refresh, at);
+          }
+        }
+        Op::Enumerate { api } => {
+          let (items, _) = self.rig.iterate(api, 10_000, &mut |_| {});
+          self.trace_push(format!("{} -> {:?}", op.name(), items));
+          let ks: Vec<u64> = self.m.ents.keys().copied().collect();
+          let mut seen: BTreeMap<u64, u64> = BTreeMap::new();
+          for (k, v) in &items {
+            if seen.insert(*k, *v).is_some() {
+              self.out.o(&format!("C17/{}/entry-yielded-twice", api.comp()));
+            }
+          }
+          for (k, _) in &seen {
+            if !self.m.ents.contains_key(k) && !self.m.unknown.contains(k) {
+              self.out.o(&format!("C11/{}/value-for-removed-or-never-inserted-key", api.comp()));
+              self.m.unknown.insert(*k);
+            }
+          }
+          for k in ks {
+            self.check_read(api.comp(), k, seen.get(&k).copied(), Rc::Open, at);
+          }
+        }
+        Op::FetchWith { k, asy } => {
+          if self.cfg.loader == LoaderKind::None || (self.cfg.loader == LoaderKind::Task && !*asy) {
+            return;
+          }
+          self.do_fetch_with(*k, *asy, at);
+          self.last_mutator = op.name();
+          let m = format!("{}({})", op.name(), k);
+          self.trace_push(m);
+        }
+      }
+    }
+
+    fn trace_push(&mut self, s: String) {
+      if self.out.trace.len() < 400 {
+        self.out.trace.push(format!("t={} {}", self.now, s));
+      }
+    }
+  }
+
+  /// Runs one C12 program on a fresh cache. Returns the outcome and the concrete ops executed.
+  pub fn run12(cfg: &CacheCfg, mut src: Source) -> (Outcome, Vec<Op>) {
+    let now = freeze_clock();
+    let rig = match Rig::build(cfg) {
+      Ok(r) => r,
+      Err(e) => {
+        let mut o = Outcome::default();
+        o.inconclusive.push(format!("cache did not build: {}", e));
+        return (o, vec![]);
+      }
+    };
+    let mut r = Run12 {
+      cfg,
+      rig,
+      m: Model { ttl: cfg.ttl, tti: cfg.tti, grace: cfg.grace, ents: BTreeMap::new(), unknown: BTreeSet::new() },
+      now,
+      out: Outcome::default(),
+      next_val: 1,
+      ops: Vec::new(),
+      last_mutator: "build".into(),
+      loads_seen: 0,
+      aborted: false,
+    };
+    let n = match &src {
+      Source::Gen(_, g) => g.len,
+      Source::Fixed(ops) => ops.len(),
+    };
+    for i in 0..n {
+      let op = match &mut src {
+        Source::Gen(rng, g) => r.gen_op(rng, g),
+        Source::Fixed(ops) => ops[i].clone(),
+      };
+      r.ops.push(op.clone());
+      r.step(&op, i);
+      if r.aborted || r.out.findings.len() > 12 {
+        break;
+      }
+    }
+    // let background refreshes finish before the cache goes away
+    r.rig.run_spawned();
+    r.late_loads();
+    let mut h = Fnv::default();
+    h.bytes(format!("{:?}{:?}{:?}{:?}", cfg.ttl, cfg.tti, cfg.grace, cfg.loader).as_bytes());
+    for t in &r.out.trace {
+      // shape = op names and results without absolute times
+      let s = t.splitn(2, ' ').nth(1).unwrap_or("");
+      h.bytes(s.as_bytes());
+    }
+    for o in &r.ops {
+      h.bytes(o.name().as_bytes());
+    }
+    r.out.shape = h.finish();
+    let ops = std::mem::take(&mut r.ops);
+    (r.out, ops)
+  }
+
+  /// Greedy shrinking of a C12 program that keeps a finding with signature `sig`.
+  pub fn shrink12(cfg: &CacheCfg, ops: &[Op], sig: &str) -> Vec<Op> {
+    let has = |cand: &[Op]| -> bool {
+      let (o, _) = run12(cfg, Source::Fixed(cand));
+      o.findings.iter().any(|f| f.sig() == sig)
+    };
+    let mut best: Vec<Op> = ops.to_vec();
+    if !has(&best) {
+      return best; // not reproducible from the recorded ops (should not happen)
+    }
+    for _ in 0..4 {
+      let mut changed = false;
+      let mut i = best.len();
+      while i > 0 {
+        i -= 1;
+        if best.len() <= 1 {
+          break;
+        }
+        let mut cand = best.clone();
+        cand.remove(i);
+        if has(&cand) {
+          best = cand;
+          changed = true;
+        }
+      }
+      if !changed {
+        break;
+      }
+    }
+    best
+  }
+
+  pub fn program_json(cfg: &CacheCfg, ops: &[Op]) -> Value {
+    json!({"config": cfg, "ops": ops})
+  }
+
+  // ------------------------------------------------------------------ C17
+
+  #[derive(Clone, Debug, Serialize, Deserialize)]
+  pub struct EntrySpec {
+    pub k: u64,
+    pub cost: u64,
+    pub ttl: Option<u64>,
+    /// inserted twice: the second value is the current one
+    pub overwrite: bool,
+    pub asy: bool,
+  }
+
+  #[derive(Clone, Debug, Serialize, Deserialize)]
+  pub struct IterCase {
+    pub cfg: CacheCfg,
+    pub entries: Vec<EntrySpec>,
+    /// clock step between the inserts and the enumeration
+    pub pre_advance: u64,
+    /// keys read (get) after the step: refreshes their idle time
+    pub touch: Vec<u64>,
+    pub api: IterApi,
+    /// (index of the next() call before which the clock moves, ns)
+    pub advances: Vec<(usize, u64)>,
+  }
+
+  #[derive(Clone, Debug, Serialize, Deserialize)]
+  pub enum FillOp {
+    Insert { k: u64, cost: u64, ttl: Option<u64> },
+    Get { k: u64 },
+    Advance { ns: u64 },
+  }
+
+  #[derive(Clone, Debug, Serialize, Deserialize)]
+  pub struct RestoreCase {
+    pub cfg: CacheCfg,
+    pub fill: Vec<FillOp>,
+    pub asy_snapshot: bool,
+    pub roundtrip: bool,
+    /// clock step between snapshot and rebuild
+    pub gap: u64,
+    pub asy_restore: bool,
+    /// inserts after the rebuild (key, cost)
+    pub post: Vec<(u64, u64)>,
+  }
+
+  #[derive(Clone, Debug, Serialize, Deserialize)]
+  pub enum Case17 {
+    Iter(IterCase),
+    Restore(RestoreCase),
+  }
+
+  pub fn case17_json(c: &Case17) -> Value {
+    serde_json::to_value(c).unwrap()
+  }
+  pub fn case17_small(c: &Case17) -> bool {
+    match c {
+      Case17::Iter(i) => i.entries.len() <= 6,
+      Case17::Restore(r) => r.fill.len() <= 10 && r.post.len() <= 6,
+    }
+  }
+  pub fn run17_json(v: &Value) -> Outcome {
+    let c: Case17 = serde_json::from_value(v.clone()).expect("case");
+    run17(&c)
+  }
+  pub fn run17(c: &Case17) -> Outcome {
+    match c {
+      Case17::Iter(i) => run17_iter(i),
+      Case17::Restore(r) => run17_restore(r),
+    }
+  }
+
+  pub fn gen_case17(rng: &mut Rng, tick: u64, only: Option<&str>, thorough: bool) -> Case17 {
+    let restore = match only {
+      Some("iter") => false,
+      Some("restore") => true,
+      _ => rng.chance(3, 10),
+    };
+    if restore {
+      Case17::Restore(gen_restore(rng, tick))
+    } else {
+      Case17::Iter(gen_iter(rng, tick, thorough))
+    }
+  }
+
+  fn distinct_keys(rng: &mut Rng, n: usize) -> Vec<u64> {
+    let mut s: BTreeSet<u64> = BTreeSet::new();
+    let dense = rng.chance(1, 3);
+    let base = rng.below(1 << 30);
+    let mut i = 0u64;
+    while s.len() < n {
+      if dense {
+        s.insert(base + i);
+        i += 1;
+      } else {
+        s.insert(rng.below(1 << 40));
+      }
+    }
+    let mut v: Vec<u64> = s.into_iter().collect();
+    rng.shuffle(&mut v);
+    v
+  }
+
+  fn gen_iter(rng: &mut Rng, tick: u64, thorough: bool) -> IterCase {
+    let n = match rng.below(16) {
+      0 => 0,
+      1 => 1,
+      2 => 2,
+      3 => 63,
+      4 => 64,
+      5 => 65,
+      6 => 127,
+      7 => 128,
+      8 => 129,
+      9 => {
+        if thorough || rng.chance(1, 3) {
+          1000
+        } else {
+          200
+        }
+      }
+      10 | 11 => rng.range(3, 20),
+      12 => rng.range(20, 70),
+      _ => rng.range(60, 140),
+    } as usize;
+    let shards = rng.range(1, 16) as usize;
+    let batch = *rng.pick(&[0usize, 1, 2, 63, 64, 65, 3, 7]);
+    let api = match rng.below(10) {
+      0 | 1 | 2 => IterApi::Iter { batch },
+      3 => IterApi::IterSnapshot,
+      4 | 5 | 6 => IterApi::Stream { batch },
+      7 => IterApi::AsyncSnapshotIter,
+      8 => IterApi::ToSnapshot { asy: false },
+      _ => IterApi::ToSnapshot { asy: true },
+    };
+    // time plan: A expires at or before `pre`, B between pre and pre+during, C later / never
+    let pre: u64 = *rng.pick(&[0u64, 1_000, 1_000_000, 2_000_000_000]);
+    let during: u64 = if rng.chance(2, 3) { *rng.pick(&[1u64, 10, 1_000_000, 5_000_000_000]) } else { 0 };
+    let (pa, pb) = match rng.below(5) {
+      0 => (0, 0),
+      1 => (30, 0),
+      2 => (0, 40),
+      3 => (25, 25),
+      _ => (rng.range(0, 90), rng.range(0, 50)),
+    };
+    let tti = if rng.chance(1, 6) { Some(pre + during + rng.range(1, 1_000_000_000)) } else { None };
+    let global_ttl = if rng.chance(1, 4) { Some(pre + during + rng.range(1, 10_000_000_000)) } else { None };
+    let keys = distinct_keys(rng, n);
+    let mut entries = Vec::with_capacity(n);
+    for k in keys {
+      let g = rng.below(100);
+      let ttl = if g < pa && pre > 0 {
+        // expired when the enumeration begins (sometimes exactly at the deadline)
+        Some(if rng.chance(1, 3) { pre } else { rng.range(1, pre) })
+      } else if g < pa + pb && during > 0 {
+        Some(pre + rng.range(1, during))
+      } else if rng.chance(1, 2) {
+        None
+      } else {
+        Some(pre + during + rng.range(1, 1 << 40))
+      };
+      entries.push(EntrySpec { k, cost: rng.range(0, 3), ttl, overwrite: rng.chance(1, 8), asy: rng.chance(1, 2) });
+    }
+    let mut advances: Vec<(usize, u64)> = Vec::new();
+    if during > 0 && !matches!(api, IterApi::ToSnapshot { .. }) {
+      let parts = rng.range(1, 3);
+      let mut left = during;
+      for i in 0..parts {
+        let amt = if i + 1 == parts { left } else { rng.range(0, left) };
+        left -= amt;
+        if amt > 0 {
+          advances.push((rng.below(n as u64 + 2) as usize, amt));
+        }
+      }
+      advances.sort();
+    }
+    let touch: Vec<u64> = if tti.is_some() { entries.iter().filter(|_| rng.chance(1, 5)).map(|e| e.k).take(20).collect() } else { vec![] };
+    let bounded = rng.chance(1, 4);
+    IterCase {
+      cfg: CacheCfg {
+        capacity: if bounded { Some(10_000) } else { None },
+        policy: if bounded { rng.pick(&["default", "lru", "sieve", "slru"]).to_string() } else { "default".into() },
+        shards,
+        ttl: global_ttl,
+        tti,
+        grace: None,
+        loader: LoaderKind::None,
+        hseed: rng.next(),
+        wheel_tick_ns: None,
+        wheel_size: None,
+        introspect: rng.chance(1, 4),
+        janitor_tick_ms: tick,
+      },
+      entries,
+      pre_advance: pre,
+      touch,
+      api,
+      advances,
+    }
+  }
+
+  fn gen_restore(rng: &mut Rng, tick: u64) -> RestoreCase {
+    let policy = rng.pick(&["default", "tinylfu", "sieve", "slru", "arc", "lru", "fifo", "clock", "random"]).to_string();
+    let capacity = *rng.pick(&[5u64, 10, 20, 50, 100, 1000]);
+    let shards = *rng.pick(&[1usize, 2, 4, 8]);
+    let global_ttl = if rng.chance(1, 3) { Some(rng.range(1_000_000_000, 100_000_000_000)) } else { None };
+    let tti = if rng.chance(1, 8) { Some(rng.range(50_000_000_000, 500_000_000_000)) } else { None };
+    let nkeys = rng.range(1, (capacity * 2).min(60)) as usize;
+    let keys = distinct_keys(rng, nkeys);
+    let nfill = rng.range(1, (capacity * 3).min(120));
+    let mut fill = Vec::new();
+    for _ in 0..nfill {
+      let k = *rng.pick(&keys);
+      match rng.below(10) {
+        0 => fill.push(FillOp::Get { k }),
+        1 => fill.push(FillOp::Advance { ns: *rng.pick(&[1u64, 1_000_000, 500_000_000, 2_000_000_000]) }),
+        _ => {
+          let cost = match rng.below(8) {
+            0 => 0,
+            1 | 2 => rng.range(2, 5),
+            _ => 1,
+          };
+          let ttl = match rng.below(5) {
+            0 => Some(*rng.pick(&[1u64, 1_000_000, 3_000_000_000, 10_000_000_000, 60_000_000_000])),
+            1 => Some(rng.range(1, 20_000_000_000)),
+            _ => None,
+          };
+          fill.push(FillOp::Insert { k, cost, ttl });
+        }
+      }
+    }
+    let npost = rng.range(0, (capacity * 3).min(150));
+    let fresh = distinct_keys(rng, 40);
+    let mut post = Vec::new();
+    for _ in 0..npost {
+      let k = if rng.chance(1, 4) { *rng.pick(&keys) } else { *rng.pick(&fresh) };
+      post.push((k, rng.range(0, 4)));
+    }
+    RestoreCase {
+      cfg: CacheCfg {
+        capacity: Some(capacity),
+        policy,
+        shards,
+        ttl: global_ttl,
+        tti,
+        grace: None,
+        loader: LoaderKind::None,
+        hseed: rng.next(),
+        wheel_tick_ns: None,
+        wheel_size: None,
+        introspect: rng.chance(1, 4),
+        janitor_tick_ms: tick,
+      },
+      fill,
+      asy_snapshot: rng.chance(1, 2),
+      roundtrip: rng.chance(2, 3),
+      gap: if rng.chance(1, 3) { *rng.pick(&[1u64, 1_000_000_000, 30_000_000_000]) } else { 0 },
+      asy_restore: rng.chance(1, 2),
+      post,
+    }
+  }
+
+  fn f17(comp: &str, rule: &str, variant: &str, detail: String) -> Finding {
+    Finding { prop: "C17", comp: comp.into(), rule: rule.into(), variant: variant.into(), at: 0, detail }
+  }
+
+  /// What an enumeration returned against what it had to return.
+  ///  * `must`: key -> value of the entries live from start to end and confirmed present
+  ///  * `must_not`: key -> cause of the entries already expired when the enumeration began
+  ///  * `known`: every key that was ever written -> its current value (None = unknown / removed)
+  fn judge_enumeration(
+    out: &mut Outcome,
+    comp: &str,
+    items: &[(u64, u64)],
+    must: &BTreeMap<u64, u64>,
+    must_not: &BTreeMap<u64, &'static str>,
+    known: &BTreeMap<u64, u64>,
+    ctx: &str,
+    shape: &str,
+  ) {
+    let mut seen: BTreeMap<u64, u64> = BTreeMap::new();
+    let mut dup: Vec<u64> = Vec::new();
+    for (k, v) in items {
+      if seen.insert(*k, *v).is_some() {
+        dup.push(*k);
+      }
+    }
+    out.c("enumeration/items_yielded", items.len() as u64);
+    out.c("enumeration/must_yield", must.len() as u64);
+    out.c("enumeration/must_not_yield_expired_at_start", must_not.len() as u64);
+    if !dup.is_empty() {
+      out.findings.push(f17(
+        comp,
+        "entry-yielded-twice",
+        shape,
+        format!("{} yielded keys {:?} more than once ({} items, {} distinct); {}", comp, &dup[..dup.len().min(8)], items.len(), seen.len(), ctx),
+      ));
+    }
+    let phantom: Vec<u64> = seen.keys().copied().filter(|k| !known.contains_key(k)).collect();
+    if !phantom.is_empty() {
+      out.findings.push(f17(comp, "phantom-entry", shape, format!("{} yielded keys that were never written: {:?}; {}", comp, &phantom[..phantom.len().min(8)], ctx)));
+    }
+    let wrong: Vec<(u64, u64, u64)> =
+      seen.iter().filter_map(|(k, v)| known.get(k).filter(|cur| *cur != v).map(|cur| (*k, *v, *cur))).collect();
+    if !wrong.is_empty() {
+      out.findings.push(f17(
+        comp,
+        "not-current-value",
+        shape,
+        format!("{} yielded (key, value, current value) {:?}; {}", comp, &wrong[..wrong.len().min(8)], ctx),
+      ));
+    }
+    let exp: Vec<(u64, &str)> = seen.keys().filter_map(|k| must_not.get(k).map(|c| (*k, *c))).collect();
+    if !exp.is_empty() {
+      let cause = exp[0].1;
+      out.findings.push(f17(
+        comp,
+        "expired-yielded",
+        cause,
+        format!("{} yielded {} entries that were expired when the enumeration began, e.g. {:?}; {}", comp, exp.len(), &exp[..exp.len().min(8)], ctx),
+      ));
+    }
+    let missing: Vec<u64> = must.keys().copied().filter(|k| !seen.contains_key(k)).collect();
+    if !missing.is_empty() {
+      out.findings.push(f17(
+        comp,
+        "live-omitted",
+        shape,
+        format!(
+          "{} omitted {} of {} entries that were live throughout, e.g. keys {:?}; {}",
+          comp, missing.len(), must.len(), &missing[..missing.len().min(8)], ctx
+        ),
+      ));
+    }
+  }
+
+  pub fn run17_iter(c: &IterCase) -> Outcome {
+    let mut out = Outcome::default();
+    let t0 = freeze_clock();
+    let rig = match Rig::build(&c.cfg) {
+      Ok(r) => r,
+      Err(e) => {
+        out.inconclusive.push(format!("cache did not build: {}", e));
+        return out;
+      }
+    };
+    let m = Model { ttl: c.cfg.ttl, tti: c.cfg.tti, grace: None, ents: BTreeMap::new(), unknown: BTreeSet::new() };
+    let mut ents: BTreeMap<u64, Ent> = BTreeMap::new();
+    let mut val = 1u64;
+    for (i, e) in c.entries.iter().enumerate() {
+      let reps = if e.overwrite { 2 } else { 1 };
+      for _ in 0..reps {
+        match e.ttl {
+          Some(d) => rig.insert_ttl(e.k, val, e.cost, d, e.asy),
+          None => rig.insert(e.k, val, e.cost, e.asy),
+        }
+        ents.insert(e.k, m.new_ent(val, e.cost, t0, e.ttl, Origin::Insert));
+        val += 1;
+      }
+      // keep the policy's event buffer drained on bounded caches (no eviction: capacity is ample)
+      if c.cfg.capacity.is_some() && i % 8 == 7 {
+        rig.maintain(false);
+      }
+    }
+    let mut now = if c.pre_advance > 0 { advance(c.pre_advance) } else { t0 };
+    for k in &c.touch {
+      if rig.get(*k, false).is_some() {
+        if let Some(e) = ents.get_mut(k) {
+          e.la_lo = now;
+          e.la_hi = now;
+        }
+      }
+    }
+    let ts = now;
+    // ground truth before: peek every entry that is not certainly expired
+    let mut present: BTreeSet<u64> = BTreeSet::new();
+    for (k, e) in &ents {
+      if m.def_expired(e, ts).is_none() {
+        match rig.peek(*k, false) {
+          Some(v) if v == e.val => {
+            present.insert(*k);
+          }
+          Some(_) => out.o("C11/peek/value-differs-from-last-write"),
+          None => {
+            if m.def_live(e, ts) {
+              out.o("C12/peek/unexpired-missing-before-enumeration");
+            }
+          }
+        }
+      }
+    }
+    let adv = c.advances.clone();
+    let mut moved = 0u64;
+    let limit = c.entries.len() * 3 + 100;
+    let (items, snap) = rig.iterate(&c.api, limit, &mut |i| {
+      for (pos, ns) in &adv {
+        if *pos == i {
+          now = advance(*ns);
+          moved += 1;
+        }
+      }
+    });
+    let te = now;
+    let mut must: BTreeMap<u64, u64> = BTreeMap::new();
+    let mut must_not: BTreeMap<u64, &'static str> = BTreeMap::new();
+    let mut known: BTreeMap<u64, u64> = BTreeMap::new();
+    let (mut na, mut nb) = (0u64, 0u64);
+    for (k, e) in &ents {
+      known.insert(*k, e.val);
+      if let Some(cause) = m.def_expired(e, ts) {
+        must_not.insert(*k, cause);
+        na += 1;
+      } else if m.def_live(e, te) && present.contains(k) {
+        must.insert(*k, e.val);
+      } else {
+        nb += 1;
+      }
+    }
+    let batch = c.api.batch();
+    let multi_batch = batch != usize::MAX && ents.len() > batch;
+    let shape = if moved > 0 {
+      "clock-moved-between-batches"
+    } else if na > 0 {
+      "with-expired-entries"
+    } else if multi_batch {
+      "multi-batch"
+    } else {
+      "plain"
+    };
+    let ctx = format!(
+      "{} entries in {} shards, batch {}, {} expired at start, {} expiring during, clock moved {} times, start t={} end t={}",
+      ents.len(), c.cfg.shards.max(1).next_power_of_two(), if batch == usize::MAX { 0 } else { batch }, na, nb, moved, ts, te
+    );
+    out.c(&format!("enumeration/by_api/{}", c.api.comp()), 1);
+    out.c(&format!("enumeration/by_shape/{}", shape), 1);
+    out.c(&format!("enumeration/shards/{}", c.cfg.shards.max(1).next_power_of_two()), 1);
+    out.c(&format!("enumeration/batch/{}", if batch == usize::MAX { "n-a".to_string() } else { batch.to_string() }), 1);
+    out.c(
+      &format!(
+        "enumeration/size_class/{}",
+        match ents.len() {
+          0 => "0",
+          1 => "1",
+          2..=62 => "2-62",
+          63..=65 => "63-65",
+          66..=126 => "66-126",
+          127..=129 => "127-129",
+          130..=999 => "130-999",
+          _ => "1000",
+        }
+      ),
+      1,
+    );
+    out.c("enumeration/entries_expired_at_start", na);
+    out.c("enumeration/entries_expiring_during", nb);
+    out.c("enumeration/clock_moves_between_next_calls", moved);
+    if items.len() > limit {
+      out.findings.push(f17(c.api.comp(), "does-not-terminate", shape, format!("{} yielded more than {} items; {}", c.api.comp(), limit, ctx)));
+    }
+    judge_enumeration(&mut out, c.api.comp(), &items, &must, &must_not, &known, &ctx, shape);
+    // snapshot only: costs and remaining lifetimes
+    for s in &snap {
+      if let Some(e) = ents.get(&s.key) {
+        if s.val == e.val && s.cost != e.cost {
+          out.findings.push(f17(c.api.comp(), "cost-mismatch", "entry", format!("snapshot entry {} has cost {}, inserted with {}; {}", s.key, s.cost, e.cost, ctx)));
+        }
+        if s.val == e.val {
+          match (s.ttl_remaining, e.exp) {
+            (Some(r), Some(x)) if r > x.saturating_sub(ts) => out.findings.push(f17(
+              c.api.comp(),
+              "ttl-remaining-too-long",
+              "entry",
+              format!("snapshot entry {} has ttl_remaining {} ns, the entry has {} ns left; {}", s.key, r, x.saturating_sub(ts), ctx),
+            )),
+            (None, Some(x)) => out.findings.push(f17(
+              c.api.comp(),
+              "ttl-remaining-too-long",
+              "deadline-dropped",
+              format!("snapshot entry {} has no ttl_remaining, the entry has {} ns left; {}", s.key, x.saturating_sub(ts), ctx),
+            )),
+            _ => {}
+          }
+        }
+      }
+    }
+    out.nontrivial = multi_batch || na > 0 || moved > 0;
+    if out.trace.len() < 8 {
+      out.trace.push(format!("{}; yielded {} items", ctx, items.len()));
+      if items.len() <= 12 {
+        out.trace.push(format!("items {:?}", items));
+      }
+    }
+    let mut h = Fnv::default();
+    h.bytes(c.api.comp().as_bytes());
+    for x in [batch as u64, ents.len() as u64, c.cfg.shards as u64, na, nb, must.len() as u64, moved, c.cfg.hseed] {
+      h.u64(x);
+    }
+    for (p, _) in &c.advances {
+      h.u64(*p as u64);
+    }
+    out.shape = h.finish();
+    out
+  }
+
+  /// run_maintenance until two consecutive passes change nothing observable (bounded).
+  fn maintain_to_fixpoint(rig: &Rig, keys: &BTreeSet<u64>) -> bool {
+    let view = |rig: &Rig| -> (u64, u64, u64, usize) {
+      let m = rig.s.metrics();
+      let resident = keys.iter().filter(|k| rig.peek(**k, false).is_some()).count();
+      (m.current_cost, m.evicted_by_capacity, m.evicted_by_ttl + m.evicted_by_tti, resident)
+    };
+    let mut stable = 0;
+    let mut last = view(rig);
+    for _ in 0..80 {
+      rig.maintain(false);
+      let v = view(rig);
+      if v == last {
+        stable += 1;
+        // 512-slot event buffer drained 16 per pass and shard: enough passes to empty a backlog
+        if stable >= 3 {
+          return true;
+        }
+      } else {
+        stable = 0;
+      }
+      last = v;
+    }
+    false
+  }
+
+  pub fn run17_restore(c: &RestoreCase) -> Outcome {
+    let mut out = Outcome::default();
+    let cap = c.cfg.capacity.unwrap_or(u64::MAX);
+    let t_start = freeze_clock();
+    let orig = match Rig::build(&c.cfg) {
+      Ok(r) => r,
+      Err(e) => {
+        out.inconclusive.push(format!("cache did not build: {}", e));
+        return out;
+      }
+    };
+    let m = Model { ttl: c.cfg.ttl, tti: c.cfg.tti, grace: None, ents: BTreeMap::new(), unknown: BTreeSet::new() };
+    let mut ents: BTreeMap<u64, Ent> = BTreeMap::new();
+    let mut now = t_start;
+    let mut val = 1u64;
+    let mut all_keys: BTreeSet<u64> = BTreeSet::new();
+    let mut since_maint = 0;
+    for op in &c.fill {
+      match op {
+        FillOp::Insert { k, cost, ttl } => {
+          match ttl {
+            Some(d) => orig.insert_ttl(*k, val, *cost, *d, false),
+            None => orig.insert(*k, val, *cost, false),
+          }
+          ents.insert(*k, m.new_ent(val, *cost, now, *ttl, Origin::Insert));
+          all_keys.insert(*k);
+          val += 1;
+          since_maint += 1;
+          if since_maint >= 8 {
+            orig.maintain(false);
+            since_maint = 0;
+          }
+        }
+        FillOp::Get { k } => {
+          let _ = orig.get(*k, false);
+        }
+        FillOp::Advance { ns } => now = advance(*ns),
+      }
+    }
+    if !maintain_to_fixpoint(&orig, &all_keys) {
+      out.inconclusive.push("original cache did not reach a maintenance fixpoint in 80 passes".into());
+      return out;
+    }
+    let t0 = now;
+    // ---- ground truth: what the original cache holds live right now
+    let mut g: BTreeMap<u64, Ent> = BTreeMap::new();
+    for (k, e) in &ents {
+      if let Some(v) = orig.peek(*k, false) {
+        if v != e.val {
+          out.o("C11/peek/value-differs-from-last-write");
+          continue;
+        }
+        if m.def_expired(e, t0).is_some() {
+          out.o("C12/peek/expired-served");
+          continue;
+        }
+        g.insert(*k, e.clone());
+      }
+    }
+    let g_cost: u64 = g.values().map(|e| e.cost).sum();
+    out.c("restore/scenarios", 1);
+    out.c(&format!("restore/policy/{}", c.cfg.policy), 1);
+    out.c(&format!("restore/capacity/{}", cap), 1);
+    out.c("restore/entries_live_at_snapshot", g.len() as u64);
+    out.c("restore/entries_with_deadline_at_snapshot", g.values().filter(|e| e.exp.is_some()).count() as u64);
+    out.c("restore/entries_evicted_or_expired_before_snapshot", (ents.len() - g.len()) as u64);
+    if g_cost > cap {
+      out.o("C13/original-cache/over-capacity-at-quiescence");
+    }
+    // ---- snapshot, judged like any enumeration against the peek truth
+    let snap = orig.snapshot(c.asy_snapshot);
+    let sents = snapshot_entries(&snap);
+    let comp_s = if c.asy_snapshot { "async.to_snapshot" } else { "to_snapshot" };
+    let must: BTreeMap<u64, u64> = g.iter().map(|(k, e)| (*k, e.val)).collect();
+    let must_not: BTreeMap<u64, &'static str> = ents.iter().filter_map(|(k, e)| m.def_expired(e, t0).map(|cz| (*k, cz))).collect();
+    let known: BTreeMap<u64, u64> = ents.iter().map(|(k, e)| (*k, e.val)).collect();
+    let items: Vec<(u64, u64)> = sents.iter().map(|e| (e.key, e.val)).collect();
+    let ctx = format!("bounded cache capacity {} policy {} shards {}, {} live entries (cost {}) at t={}", cap, c.cfg.policy, c.cfg.shards, g.len(), g_cost, t0);
+    judge_enumeration(&mut out, comp_s, &items, &must, &must_not, &known, &ctx, "bounded-cache");
+    for s in &sents {
+      if let Some(e) = g.get(&s.key) {
+        if s.cost != e.cost {
+          out.findings.push(f17(comp_s, "cost-mismatch", "entry", format!("snapshot entry {} has cost {}, inserted with {}; {}", s.key, s.cost, e.cost, ctx)));
+        }
+        match (s.ttl_remaining, e.exp) {
+          (Some(r), Some(x)) if r > x - t0 => out.findings.push(f17(
+            comp_s,
+            "ttl-remaining-too-long",
+            "entry",
+            format!("snapshot entry {} has ttl_remaining {} ns, the entry has {} ns left; {}", s.key, r, x - t0, ctx),
+          )),
+          (None, Some(x)) => out.findings.push(f17(
+            comp_s,
+            "ttl-remaining-too-long",
+            "deadline-dropped",
+            format!("snapshot entry {} has no ttl_remaining, the entry has {} ns left; {}", s.key, x - t0, ctx),
+          )),
+          _ => {}
+        }
+      }
+    }
+    // ---- (round trip and) rebuild
+    let snap2 = if c.roundtrip {
+      let bytes = bincode::serialize(&snap).expect("bincode serialize");
+      out.c("restore/bincode_round_trips", 1);
+      out.c("restore/bincode_bytes", bytes.len() as u64);
+      bincode::deserialize::<CacheSnapshot<u64, u64>>(&bytes).expect("bincode deserialize")
+    } else {
+      snap
+    };
+    if c.gap > 0 {
+      now = advance(c.gap);
+    }
+    let t1 = now;
+    let rest = match Rig::from_snapshot(&c.cfg, snap2, c.asy_restore) {
+      Ok(r) => r,
+      Err(e) => {
+        out.findings.push(f17("restore", "build-failed", "error", format!("build_from_snapshot failed: {}; {}", e, ctx)));
+        return out;
+      }
+    };
+    let rt = if c.roundtrip { "after-bincode-round-trip" } else { "direct" };
+    // a. same mapping
+    let mut missing = Vec::new();
+    let mut wrong = Vec::new();
+    let mut extra = Vec::new();
+    for (k, e) in &ents {
+      let p = rest.peek(*k, false);
+      match (g.get(k), p) {
+        (Some(ge), Some(v)) if v != ge.val => wrong.push((*k, v, ge.val)),
+        (Some(_), None) => missing.push(*k),
+        (None, Some(v)) => extra.push((*k, v)),
+        _ => {}
+      }
+      let _ = e;
+    }
+    if !missing.is_empty() {
+      let with_deadline = missing.iter().any(|k| g[k].exp.is_some());
+      out.findings.push(f17(
+        "restore",
+        "entry-missing",
+        if with_deadline { "entry-with-deadline" } else { "entry-without-deadline" },
+        format!("rebuilt cache ({}) misses keys {:?} that were live in the original at snapshot time; {}", rt, &missing[..missing.len().min(8)], ctx),
+      ));
+    }
+    if !wrong.is_empty() {
+      out.findings.push(f17("restore", "value-mismatch", rt, format!("rebuilt cache returns (key, value, original) {:?}; {}", &wrong[..wrong.len().min(8)], ctx)));
+    }
+    if !extra.is_empty() {
+      out.findings.push(f17(
+        "restore",
+        "extra-entry",
+        rt,
+        format!("rebuilt cache holds (key, value) {:?} that the original no longer held (expired / evicted); {}", &extra[..extra.len().min(8)], ctx),
+      ));
+    }
+    // b. same costs and current_cost
+    let rents = snapshot_entries(&rest.snapshot(false));
+    for s in &rents {
+      if let Some(e) = g.get(&s.key) {
+        if s.cost != e.cost {
+          out.findings.push(f17("restore", "entry-cost-mismatch", rt, format!("rebuilt entry {} has cost {}, original {}; {}", s.key, s.cost, e.cost, ctx)));
+          break;
+        }
+      } else {
+        out.findings.push(f17("restore", "extra-entry", rt, format!("rebuilt cache enumerates key {} that was not live in the original; {}", s.key, ctx)));
+        break;
+      }
+    }
+    let cc = rest.s.metrics().current_cost;
+    out.c("restore/current_cost_checked", 1);
+    if cc != g_cost {
+      out.findings.push(f17(
+        "restore",
+        "current-cost-mismatch",
+        rt,
+        format!("rebuilt cache reports current_cost {} but holds entries worth {}; {}", cc, g_cost, ctx),
+      ));
+    }
+    // d. capacity from then on, next to a normally filled control cache
+    let control = match Rig::build(&c.cfg) {
+      Ok(r) => r,
+      Err(e) => {
+        out.inconclusive.push(format!("control cache did not build: {}", e));
+        return out;
+      }
+    };
+    let mut i = 0;
+    for (k, e) in &g {
+      match e.exp {
+        Some(x) => control.insert_ttl(*k, e.val, e.cost, x - t0, false),
+        None => control.insert(*k, e.val, e.cost, false),
+      }
+      i += 1;
+      if i % 8 == 0 {
+        control.maintain(false);
+      }
+    }
+    let mut cur_cost: BTreeMap<u64, u64> = g.iter().map(|(k, e)| (*k, e.cost)).collect();
+    let mut overwritten: BTreeSet<u64> = BTreeSet::new();
+    let mut keys2: BTreeSet<u64> = g.keys().copied().collect();
+    for (j, (k, cost)) in c.post.iter().enumerate() {
+      rest.insert(*k, val, *cost, false);
+      control.insert(*k, val, *cost, false);
+      val += 1;
+      cur_cost.insert(*k, *cost);
+      overwritten.insert(*k);
+      keys2.insert(*k);
+      if j % 8 == 7 {
+        rest.maintain(false);
+        control.maintain(false);
+      }
+    }
+    let fx1 = maintain_to_fixpoint(&rest, &keys2);
+    let fx2 = maintain_to_fixpoint(&control, &keys2);
+    let resident = |r: &Rig| -> u64 { keys2.iter().filter(|k| r.peek(**k, false).is_some()).map(|k| cur_cost[k]).sum() };
+    let (sum_r, sum_c) = (resident(&rest), resident(&control));
+    out.c("restore/post_inserts", c.post.len() as u64);
+    out.c("restore/capacity_checks", 1);
+    if !fx1 || !fx2 {
+      out.inconclusive.push("no maintenance fixpoint after the post-restore inserts".into());
+    } else if sum_r > cap {
+      if sum_c > cap {
+        out.o(&format!("C13/{}/over-capacity-at-fixpoint-also-without-restore", c.cfg.policy));
+      } else {
+        out.findings.push(f17(
+          "restore",
+          "over-capacity",
+          &c.cfg.policy,
+          format!(
+            "after {} inserts and maintenance to a fixpoint the rebuilt cache holds entries worth {} > capacity {} (a normally filled cache with the same content and inserts: {}); {}",
+            c.post.len(), sum_r, cap, sum_c, ctx
+          ),
+        ));
+      }
+    }
+    let survivors = g.keys().filter(|k| !overwritten.contains(k) && rest.peek(**k, false).is_some()).count();
+    let survivors_c = g.keys().filter(|k| !overwritten.contains(k) && control.peek(**k, false).is_some()).count();
+    out.c("restore/restored_entries_surviving_refill", survivors as u64);
+    out.c("restore/control_entries_surviving_refill", survivors_c as u64);
+    // c. lifetimes: step to every original deadline (relative to the rebuild)
+    let mut deadlines: Vec<(u64, u64)> = g.iter().filter(|(k, e)| e.exp.is_some() && !overwritten.contains(k)).map(|(k, e)| (e.exp.unwrap() - t0, *k)).collect();
+    deadlines.sort();
+    let mut checked = 0;
+    let mut idx = 0;
+    while idx < deadlines.len() && checked < 12 {
+      let (r, _) = deadlines[idx];
+      let target = t1 + r;
+      if target > now {
+        now = advance(target - now);
+      }
+      // everything whose remaining lifetime was <= r must be gone now
+      let mut late: Vec<(u64, u64)> = Vec::new();
+      for (r2, k) in deadlines.iter().filter(|(r2, _)| *r2 <= r) {
+        let p = rest.peek(*k, false);
+        let f = rest.fetch(*k, false);
+        if p.is_some() || f.is_some() {
+          late.push((*k, *r2));
+        }
+      }
+      out.c("restore/deadline_steps", 1);
+      if !late.is_empty() {
+        out.findings.push(f17(
+          "restore",
+          "lifetime-extended",
+          rt,
+          format!(
+            "rebuilt at t={} ({} ns after the snapshot): (key, remaining ns at snapshot) {:?} still served {} ns after the rebuild; {}",
+            t1, c.gap, &late[..late.len().min(6)], now - t1, ctx
+          ),
+        ));
+        break;
+      }
+      checked += 1;
+      while idx < deadlines.len() && deadlines[idx].0 <= r {
+        idx += 1;
+      }
+    }
+    out.nontrivial = g.values().any(|e| e.exp.is_some()) || !c.post.is_empty();
+    out.trace.push(format!(
+      "{}; snapshot {} entries; rebuilt ({}, gap {} ns) current_cost {}; after {} inserts resident cost restored {} / control {}; restored entries surviving {} / control {}",
+      ctx, sents.len(), rt, c.gap, cc, c.post.len(), sum_r, sum_c, survivors, survivors_c
+    ));
+    let mut h = Fnv::default();
+    h.bytes(c.cfg.policy.as_bytes());
+    for x in [cap, c.cfg.shards as u64, g.len() as u64, g_cost, c.post.len() as u64, c.gap, c.roundtrip as u64, c.asy_restore as u64, deadlines.len() as u64, c.cfg.hseed] {
+      h.u64(x);
+    }
+    out.shape = h.finish();
+    out
+  }
+}
